@@ -1454,3 +1454,1506 @@ Proof.
 Qed.
 
 End Unchecked2.
+
+(* ======================================================================== *)
+(* PART H — C15 finding 1: the identity counter is above every stored         *)
+(* identity in EVERY state the interpreter reaches (every script)             *)
+(* ======================================================================== *)
+(* H0. a small logic: [NB F ida c] - started in a world whose stored identities
+   and whose free identities F (arguments, locals) are all below the counter
+   next_id, the computation c (whatever its outcome) ends in such a world again,
+   the identities [ida a] carried by its result are below the counter, and the
+   counter did not decrease.  UB is vacuous here (it is excluded by ExecSafe). *)
+Section NBGen.
+Context {V : Type} (E : env key V query cstate).
+Notation M := (M key V cstate). Notation world := (world key V cstate). Notation map := (map key V).
+Notation kv := (key * V)%type.
+
+Definition nid (w : world) : N := next_id (cb w).
+Definition ltn (n : N) (l : list N) : Prop := forall id, In id l -> (id < n)%N.
+Definition okm (n : N) (m : map) : Prop := ltn n (owned E m).
+Definition okw (w : world) : Prop := okm (nid w) (self w).
+
+Definition NB {A} (F : list N) (ida : A -> list N) (c : M A) : Prop :=
+  forall w, okw w -> ltn (nid w) F ->
+    match c w with
+    | Ok a w' => okw w' /\ ltn (nid w') (ida a) /\ (nid w <= nid w')%N
+    | Panic w' => okw w' /\ (nid w <= nid w')%N
+    | UB => True
+    end.
+
+Definition no_ids {A} : A -> list N := fun _ => [].
+
+Ltac nlia := unfold nid in *; cbn [cb] in *; lia.
+
+Lemma ltn_mono n n' l : (n <= n')%N -> ltn n l -> ltn n' l.
+Proof. intros Hle H id Hid. specialize (H id Hid). nlia. Qed.
+Lemma ltn_incl n l l' : incl l' l -> ltn n l -> ltn n l'.
+Proof. intros Hi H id Hid. apply H. apply Hi. exact Hid. Qed.
+Lemma ltn_app n l l' : ltn n l -> ltn n l' -> ltn n (l ++ l').
+Proof. intros H1 H2 id Hid. apply in_app_or in Hid. destruct Hid; auto. Qed.
+Lemma ltn_nil n : ltn n [].
+Proof. intros id []. Qed.
+
+Lemma NB_conseq {A} F F' (ida ida' : A -> list N) (c : M A) :
+  NB F ida c -> incl F F' -> (forall a, incl (ida' a) (ida a ++ F')) -> NB F' ida' c.
+Proof.
+  intros Hc Hi Ha w Hw HF. specialize (Hc w Hw (ltn_incl _ _ _ Hi HF)).
+  destruct (c w) as [a w'|w'|]; [|exact Hc|exact I].
+  destruct Hc as (H1 & H2 & H3). split; [exact H1|]. split; [|exact H3].
+  apply (ltn_incl _ _ _ (Ha a)). apply ltn_app; [exact H2 | eapply ltn_mono; eauto].
+Qed.
+
+Lemma NB_bind {A B} F (ida : A -> list N) (idb : B -> list N) (c : M A) (f : A -> M B) :
+  NB F ida c -> (forall a, NB (ida a ++ F) idb (f a)) -> NB F idb (bind c f).
+Proof.
+  intros Hc Hf w Hw HF. unfold bind. specialize (Hc w Hw HF).
+  destruct (c w) as [a w1|w1|]; [|exact Hc|exact I].
+  destruct Hc as (H1 & H2 & H3).
+  specialize (Hf a w1 H1 (ltn_app _ _ _ H2 (ltn_mono _ _ _ H3 HF))).
+  destruct (f a w1) as [b w2|w2|]; [|destruct Hf as [H4 H5]; split; [exact H4 | nlia]|exact I].
+  destruct Hf as (H4 & H5 & H6). split; [exact H4|]. split; [exact H5 | nlia].
+Qed.
+
+Lemma NB_ret {A} F (ida : A -> list N) (a : A) : incl (ida a) F -> NB F ida (ret a).
+Proof.
+  intros Hi w Hw HF. cbn. split; [exact Hw|]. split; [eapply ltn_incl; eauto | nlia].
+Qed.
+Lemma NB_panic {A} F (ida : A -> list N) : NB F ida (@panic key V cstate A).
+Proof. intros w Hw HF. cbn. split; [exact Hw | nlia]. Qed.
+Lemma NB_ub {A} F (ida : A -> list N) : NB F ida (@ub key V cstate A).
+Proof. intros w Hw HF. exact I. Qed.
+
+(* a computation that leaves container and counter alone and returns nothing that
+   carries an identity *)
+Lemma NB_pure {A} F (c : M A) :
+  (forall w, match c w with
+             | Ok _ w' => self w' = self w /\ nid w' = nid w
+             | Panic w' => self w' = self w /\ nid w' = nid w
+             | UB => True end) ->
+  NB F no_ids c.
+Proof.
+  intros H w Hw HF. specialize (H w). unfold okw in *.
+  destruct (c w) as [a w'|w'|]; [| |exact I]; destruct H as [Hs Hn]; rewrite Hs, Hn.
+  - split; [exact Hw|]. split; [apply ltn_nil | nlia].
+  - split; [exact Hw | nlia].
+Qed.
+
+Lemma NB_get_len F : NB F no_ids (@get_len key V cstate).
+Proof. apply NB_pure. intros w. split; reflexivity. Qed.
+Lemma NB_get_cap F : NB F no_ids (@get_cap key V cstate).
+Proof. apply NB_pure. intros w. split; reflexivity. Qed.
+Lemma NB_emit F e : NB F no_ids (@emit key V cstate e).
+Proof. apply NB_pure. intros w. split; reflexivity. Qed.
+Lemma NB_cbk F f : (forall s, next_id (snd (f s)) = next_id s) -> NB F no_ids (@cbk key V cstate f).
+Proof.
+  intros Hf. apply NB_pure. intros w. unfold cbk. specialize (Hf (cb w)).
+  destruct (f (cb w)) as [a s]. cbn [snd] in Hf. destruct a; split; try reflexivity; exact Hf.
+Qed.
+Lemma NB_cbd F f : (forall s, next_id (snd (f s)) = next_id s) -> NB F no_ids (@cbd key V cstate f).
+Proof.
+  intros Hf. apply NB_pure. intros w. unfold cbd. specialize (Hf (cb w)).
+  destruct (f (cb w)) as [a s]. cbn [snd] in Hf. split; [reflexivity | exact Hf].
+Qed.
+
+(* a value-producing callback: the counter does not decrease and what is returned
+   is below the new counter (or was among the free identities) *)
+Lemma NB_cbo {A} F (ida : A -> list N) (f : cstate -> option A * cstate) :
+  (forall s, (next_id s <= next_id (snd (f s)))%N /\
+             match fst (f s) with
+             | Some x => forall id, In id (ida x) -> (id < next_id (snd (f s)))%N \/ In id F
+             | None => True end) ->
+  NB F ida (cbo f).
+Proof.
+  intros Hf w Hw HF. unfold cbo. destruct (Hf (cb w)) as [Hle Hx].
+  destruct (f (cb w)) as [o s]. cbn [fst snd] in *. unfold okw, nid in *. cbn [cb self].
+  assert (Hok : okm (next_id s) (self w)) by (eapply ltn_mono; eauto).
+  destruct o as [x|]; [|split; [exact Hok | exact Hle]].
+  split; [exact Hok|]. split; [|exact Hle].
+  cbn [cb]. intros id Hid. destruct (Hx id Hid) as [H|H]; [exact H|]. specialize (HF id H). nlia.
+Qed.
+
+(* ---- the container ---- *)
+Lemma ids_slots_nth (sl : list (option kv)) i p :
+  nth_error sl i = Some (Some p) -> incl (ids_pair E p) (ids_slots E sl).
+Proof.
+  revert i; induction sl as [|o t IH]; intros [|i] H; cbn [nth_error] in H; try discriminate.
+  - injection H as ->. rewrite ids_slots_cons. apply incl_appl. apply incl_refl.
+  - rewrite ids_slots_cons. apply incl_appr. eapply IH; eauto.
+Qed.
+
+Lemma ids_slots_upd_incl (sl : list (option kv)) i x :
+  incl (ids_slots E (upd sl i x)) (ids_slots E sl ++ match x with Some p => ids_pair E p | None => [] end).
+Proof.
+  revert i; induction sl as [|o t IH]; intros i; [destruct i; cbn; intros id []|].
+  destruct i as [|i]; cbn [upd]; rewrite !ids_slots_cons.
+  - intros id Hid. apply in_app_or in Hid. rewrite !in_app_iff. tauto.
+  - intros id Hid. apply in_app_or in Hid. destruct Hid as [H|H].
+    + rewrite !in_app_iff. tauto.
+    + apply IH in H. rewrite !in_app_iff in *. tauto.
+Qed.
+
+Lemma NB_get_self F : NB F (owned E) (@get_self key V cstate).
+Proof. intros w Hw HF. cbn. split; [exact Hw|]. split; [exact Hw | nlia]. Qed.
+Lemma NB_put_self F m : incl (owned E m) F -> NB F no_ids (@put_self key V cstate m).
+Proof.
+  intros Hi w Hw HF. cbn. unfold okw, okm, nid. cbn [self cb].
+  split; [eapply ltn_incl; eauto|]. split; [apply ltn_nil | nlia].
+Qed.
+Lemma NB_set_len F n : NB F no_ids (@set_len key V cstate n).
+Proof. intros w Hw HF. cbn. split; [exact Hw|]. split; [apply ltn_nil | nlia]. Qed.
+Lemma NB_set_slot F i x :
+  incl (match x with Some p => ids_pair E p | None => [] end) F -> NB F no_ids (@set_slot key V cstate i x).
+Proof.
+  intros Hi w Hw HF. cbn. unfold okw, okm, nid, owned. cbn [self cb slots].
+  split; [|split; [apply ltn_nil | nlia]].
+  eapply ltn_incl; [apply ids_slots_upd_incl|]. apply ltn_app; [exact Hw | eapply ltn_incl; eauto].
+Qed.
+Lemma NB_p_ref F i : NB F (ids_pair E) (@p_ref key V cstate i).
+Proof.
+  intros w Hw HF. unfold p_ref. destruct (nth_error (slots (self w)) i) as [[p|]|] eqn:Hn; try exact I.
+  split; [exact Hw|]. split; [|nlia]. eapply ltn_incl; [apply (ids_slots_nth _ _ _ Hn) | exact Hw].
+Qed.
+
+(* ---- frames ---- *)
+Lemma NB_on_unwind {A} F (ida : A -> list N) (cl : M unit) (c : M A) :
+  NB F ida c -> NB F no_ids cl -> NB F ida (on_unwind cl c).
+Proof.
+  intros Hc Hcl w Hw HF. unfold on_unwind. specialize (Hc w Hw HF).
+  destruct (c w) as [a w1|w1|]; [exact Hc| |exact I]. destruct Hc as [H1 H2].
+  specialize (Hcl w1 H1 (ltn_mono _ _ _ H2 HF)).
+  destruct (cl w1) as [u w2|w2|]; [| |exact I].
+  - destruct Hcl as (H3 & _ & H4). split; [exact H3 | nlia].
+  - destruct Hcl as (H3 & H4). split; [exact H3 | nlia].
+Qed.
+
+(* run c on another container m, keeping the current one aside *)
+Lemma NB_on_map {A} F (ida : A -> list N) (m : map) (c : M A) :
+  incl (owned E m) F -> NB F ida c -> NB F ida (on_map m c).
+Proof.
+  intros Hm Hc w Hw HF. unfold on_map.
+  specialize (Hc {| cb := cb w; log := log w; self := m |}).
+  unfold okw, okm, nid in *. cbn [cb self] in *.
+  specialize (Hc (ltn_incl _ _ _ Hm HF) HF).
+  destruct (c _) as [a w1|w1|]; [| |exact I]; cbn [cb self].
+  - destruct Hc as (_ & H2 & H3). split; [eapply ltn_mono; eauto|]. split; assumption.
+  - destruct Hc as (_ & H3). split; [eapply ltn_mono; eauto | exact H3].
+Qed.
+
+Lemma NB_swap_self {A} F (ida : A -> list N) (m0 : map) (c : M A) :
+  incl (owned E m0) F -> NB F ida c ->
+  NB F (fun r : A * map => ida (fst r) ++ owned E (snd r)) (swap_self m0 c).
+Proof.
+  intros Hm Hc w Hw HF. unfold swap_self.
+  specialize (Hc {| cb := cb w; log := log w; self := m0 |}).
+  unfold okw, okm, nid in *. cbn [cb self] in *.
+  specialize (Hc (ltn_incl _ _ _ Hm HF) HF).
+  destruct (c _) as [a w1|w1|]; [| |exact I]; cbn [cb self fst snd].
+  - destruct Hc as (H1 & H2 & H3). split; [eapply ltn_mono; eauto|]. split; [apply ltn_app; assumption | exact H3].
+  - destruct Hc as (_ & H3). split; [eapply ltn_mono; eauto | exact H3].
+Qed.
+
+End NBGen.
+
+Arguments no_ids {A} _ /.
+
+(* H1. what the logic needs to know about an environment *)
+Record EnvOK {V : Type} (E : env key V query cstate) : Prop := {
+  eo_eqK : forall s a b, next_id (snd (eqK E s a b)) = next_id s;
+  eo_eqKQ : forall s a q, next_id (snd (eqKQ E s a q)) = next_id s;
+  eo_eqQQ : forall s q q', next_id (snd (eqQQ E s q q')) = next_id s;
+  eo_eqQK : forall s q a, next_id (snd (eqQK E s q a)) = next_id s;
+  eo_eqV : forall s a b, next_id (snd (eqV E s a b)) = next_id s;
+  eo_dropK : forall s k, next_id (snd (dropK E s k)) = next_id s;
+  eo_dropV : forall s v, next_id (snd (dropV E s v)) = next_id s;
+  eo_cloneK : forall s k, (next_id s <= next_id (snd (cloneK E s k)))%N /\
+                match fst (cloneK E s k) with
+                | Some k' => forall id, In id (idK E k') -> (id < next_id (snd (cloneK E s k)))%N
+                | None => True end;
+  eo_cloneV : forall s v, (next_id s <= next_id (snd (cloneV E s v)))%N /\
+                match fst (cloneV E s v) with
+                | Some v' => forall id, In id (idV E v') -> (id < next_id (snd (cloneV E s v)))%N
+                | None => True end
+}.
+
+Create HintDb nb discriminated.
+
+Ltac solve_incl :=
+  lazymatch goal with |- ?G => tryif has_evar G then fail else idtac end;
+  repeat lazymatch goal with |- forall _, _ => intro end;
+  repeat match goal with
+         | a : (_ * _)%type |- _ => destruct a
+         | a : option _ |- _ => destruct a
+         | a : unit |- _ => destruct a
+         | a : (_ + _)%type |- _ => destruct a
+         end;
+  let id := fresh "id" in let Hin := fresh "Hin" in
+  unfold incl; intros id Hin;
+  repeat match goal with H : incl _ _ |- _ => specialize (H id) end;
+  unfold no_ids, ids_pair in *; cbn [fst snd idK idV env_map env_set] in *;
+  rewrite ?cf_owned_new in *;
+  repeat rewrite in_app_iff in *; cbn [In] in *; tauto.
+
+#[global] Hint Extern 1 (incl _ _) => solve_incl : nb.
+#[global] Hint Extern 1 (forall _, incl _ _) => solve_incl : nb.
+
+Ltac nb_leaf :=
+  first [ solve [eauto with nb]
+        | eapply NB_conseq; [ | apply incl_refl | ]; [ solve [eauto with nb] | solve_incl ]
+        | eapply NB_conseq; [ solve [eauto with nb] | solve_incl | solve_incl ] ].
+
+Ltac nb_extra := fail.
+Ltac nb :=
+  lazymatch goal with
+  | |- NB _ _ _ (on_map _ _) => apply NB_on_map; [solve_incl | nb]
+  | |- NB _ _ _ (on_unwind _ _) => apply NB_on_unwind; [nb | nb]
+  | |- NB _ _ _ (bind ?c _) =>
+      lazymatch c with
+      | bind _ _ => eapply (NB_bind _ _ no_ids); [nb | intros ?; nb]
+      | ret _ => eapply (NB_bind _ _ no_ids); [nb | intros ?; nb]
+      | finally_drop _ _ => eapply (NB_bind _ _ no_ids); [nb | intros ?; nb]
+      | on_map _ _ => eapply NB_bind; [apply NB_on_map; [solve_incl | nb_leaf] | intros ?; nb]
+      | on_unwind _ _ => first [ eapply NB_bind; [apply NB_on_unwind; [nb_leaf | nb] | intros ?; nb]
+                               | eapply (NB_bind _ _ no_ids); [apply NB_on_unwind; [nb | nb] | intros ?; nb] ]
+      | swap_self _ _ => eapply NB_bind; [apply (NB_swap_self _ _ no_ids); [solve_incl | nb] | intros ?; nb]
+      | (if _ then _ else _) => eapply (NB_bind _ _ no_ids); [nb | intros ?; nb]
+      | (match _ with _ => _ end) => eapply (NB_bind _ _ no_ids); [nb | intros ?; nb]
+      | _ => eapply NB_bind; [nb_leaf | intros ?; nb]
+      end
+  | |- NB _ _ _ (ret _) => apply NB_ret; solve_incl
+  | |- NB _ _ _ panic => apply NB_panic
+  | |- NB _ _ _ ub => apply NB_ub
+  | |- NB _ _ _ (if ?b then _ else _) => destruct b; nb
+  | |- NB _ _ _ (match ?x with _ => _ end) => destruct x; nb
+  | |- NB _ _ _ _ => first [nb_extra | nb_leaf]
+  end.
+
+#[global] Hint Resolve NB_get_len NB_get_cap NB_emit NB_get_self NB_set_len NB_p_ref NB_panic NB_ub : nb.
+#[global] Hint Resolve NB_put_self NB_set_slot : nb.
+
+Section NBOps.
+Context {V : Type} (E : env key V query cstate) (HE : EnvOK E) (debug : bool).
+Notation M := (M key V cstate). Notation world := (world key V cstate). Notation map := (map key V).
+Notation kv := (key * V)%type.
+Notation NB := (NB E).
+
+(* ---- Slots.v ---- *)
+Lemma NB_p_read F i : NB F (ids_pair E) (p_read i).
+Proof. unfold p_read. nb. Qed.
+Lemma NB_p_write F i x : incl (ids_pair E x) F -> NB F no_ids (p_write i x).
+Proof. intros H. unfold p_write. nb. Qed.
+Lemma NB_p_write_checked F i x : incl (ids_pair E x) F -> NB F no_ids (p_write_checked i x).
+Proof. intros H. unfold p_write_checked. nb. Qed.
+Lemma NB_p_replace F i (f : kv -> kv) :
+  (forall p, incl (ids_pair E (f p)) (ids_pair E p ++ F)) -> NB F (ids_pair E) (p_replace i f).
+Proof.
+  intros H. unfold p_replace. eapply NB_bind; [apply NB_p_ref|]. intros p.
+  eapply (NB_bind _ _ no_ids); [apply NB_set_slot; apply H|]. intros ?. nb.
+Qed.
+Lemma NB_p_prefix F : NB F no_ids (@p_prefix key V cstate).
+Proof. unfold p_prefix. nb. Qed.
+Lemma NB_dbg_assert F c : NB F no_ids (@dbg_assert key V cstate debug c).
+Proof. unfold dbg_assert. nb. Qed.
+Lemma NB_dec_len F : NB F no_ids (@dec_len key V cstate debug).
+Proof. unfold dec_len. nb. Qed.
+Lemma NB_check_index F i : NB F no_ids (@check_index key V cstate i).
+Proof. unfold check_index. nb. Qed.
+
+Lemma NB_cbd_dropK F k : NB F no_ids (cbd (fun s => dropK E s k)).
+Proof. apply NB_cbd. intros s. apply (eo_dropK E HE). Qed.
+Lemma NB_cbd_dropV F v : NB F no_ids (cbd (fun s => dropV E s v)).
+Proof. apply NB_cbd. intros s. apply (eo_dropV E HE). Qed.
+Hint Resolve NB_p_read NB_p_write NB_p_write_checked NB_p_prefix NB_dbg_assert NB_dec_len NB_check_index
+     NB_cbd_dropK NB_cbd_dropV : nb.
+
+Lemma NB_drop_key F k : NB F no_ids (drop_key E k).
+Proof. unfold drop_key. nb. Qed.
+Lemma NB_drop_val F v : NB F no_ids (drop_val E v).
+Proof. unfold drop_val. nb. Qed.
+Lemma NB_drop_pair F p : NB F no_ids (drop_pair E p).
+Proof. unfold drop_pair. nb. Qed.
+Lemma NB_drop_args F k v : NB F no_ids (drop_args E k v).
+Proof. unfold drop_args. nb. Qed.
+Lemma NB_unwind_key F k : NB F no_ids (unwind_key E k).
+Proof. unfold unwind_key. nb. Qed.
+Lemma NB_unwind_val F v : NB F no_ids (unwind_val E v).
+Proof. unfold unwind_val. nb. Qed.
+Lemma NB_unwind_pair F p : NB F no_ids (unwind_pair E p).
+Proof. unfold unwind_pair. nb. Qed.
+Lemma NB_unwind_args F k v : NB F no_ids (unwind_args E k v).
+Proof. unfold unwind_args. nb. Qed.
+Hint Resolve NB_drop_key NB_drop_val NB_drop_pair NB_drop_args NB_unwind_key NB_unwind_val NB_unwind_pair
+     NB_unwind_args : nb.
+Lemma NB_unwind_pairs F l : NB F no_ids (unwind_pairs E l).
+Proof. induction l as [|p t IH]; cbn [unwind_pairs]; nb. Qed.
+Lemma NB_p_drop F i : NB F no_ids (p_drop E i).
+Proof. unfold p_drop. nb. Qed.
+Hint Resolve NB_unwind_pairs NB_p_drop : nb.
+
+Lemma NB_scan_loop (test : kv -> M bool) : (forall F p, NB F no_ids (test p)) ->
+  forall n i F, NB F no_ids (scan_loop test n i).
+Proof. intros Ht. induction n as [|n IH]; intros i F; cbn [scan_loop]; nb. Qed.
+Lemma NB_scan (test : kv -> M bool) F : (forall F p, NB F no_ids (test p)) -> NB F no_ids (scan test).
+Proof. intros Ht. unfold scan. pose proof (NB_scan_loop test Ht). nb. Qed.
+
+Lemma NB_test_q q F p : NB F no_ids (test_q E q p).
+Proof. unfold test_q. apply NB_cbk. intros s. apply (eo_eqKQ E HE). Qed.
+Lemma NB_test_k k F p : NB F no_ids (test_k E k p).
+Proof. unfold test_k. apply NB_cbk. intros s. apply (eo_eqK E HE). Qed.
+Lemma NB_scan_q F q : NB F no_ids (scan (test_q E q)).
+Proof. apply NB_scan. intros. apply NB_test_q. Qed.
+Lemma NB_scan_k F k : NB F no_ids (scan (test_k E k)).
+Proof. apply NB_scan. intros. apply NB_test_k. Qed.
+Hint Resolve NB_scan_q NB_scan_k NB_test_q NB_test_k : nb.
+
+(* ---- MapOps.v ---- *)
+Lemma NB_drop_range n : forall i F, NB F no_ids (drop_range E n i).
+Proof. induction n as [|n IH]; intros i F; cbn [drop_range]; nb. Qed.
+Lemma NB_unwind_range n : forall i F, NB F no_ids (unwind_range E n i).
+Proof. induction n as [|n IH]; intros i F; cbn [unwind_range]; nb. Qed.
+Hint Resolve NB_drop_range NB_unwind_range : nb.
+Lemma NB_clear F : NB F no_ids (clear E).
+Proof. unfold clear. nb. Qed.
+Lemma NB_drop_map F : NB F no_ids (drop_map E).
+Proof. unfold drop_map. nb. Qed.
+Lemma NB_unwind_map F : NB F no_ids (unwind_map E).
+Proof. unfold unwind_map. nb. Qed.
+Lemma NB_unwind_drain F c : NB F no_ids (unwind_drain E c).
+Proof. unfold unwind_drain. nb. Qed.
+Lemma NB_drain_drop F c : NB F no_ids (drain_drop E c).
+Proof. unfold drain_drop. nb. Qed.
+Hint Resolve NB_clear NB_drop_map NB_unwind_map NB_unwind_drain NB_drain_drop : nb.
+
+Lemma NB_finally_drop {A} F (ida : A -> list N) (c : M A) : NB F ida c -> NB F ida (finally_drop E c).
+Proof.
+  intros Hc w Hw HF. unfold finally_drop. specialize (Hc w Hw HF).
+  destruct (c w) as [a w1|w1|]; [exact Hc| |exact I]. destruct Hc as [H1 H2].
+  pose proof (NB_unwind_map F w1 H1 (ltn_mono _ _ _ H2 HF)) as Hu.
+  destruct (unwind_map E w1) as [u w2|w2|]; [| |exact I].
+  - destruct Hu as (H3 & _ & H4). split; [exact H3 | lia].
+  - destruct Hu as (H3 & H4). split; [exact H3 | lia].
+Qed.
+
+Lemma NB_remove_index_read F i : NB F (ids_pair E) (remove_index_read debug i).
+Proof. unfold remove_index_read. nb. Qed.
+Hint Resolve NB_remove_index_read : nb.
+Lemma NB_remove_index_drop F i : NB F no_ids (remove_index_drop E debug i).
+Proof. unfold remove_index_drop. nb. Qed.
+Hint Resolve NB_remove_index_drop : nb.
+
+(* a retain closure: may advance the counter, may rewrite the value but not which
+   object it is *)
+Definition pred_ok (f : @pred_t key V cstate) : Prop :=
+  forall s k v, (next_id s <= next_id (snd (f s k v)))%N /\ incl (idV E (snd (fst (f s k v)))) (idV E v).
+
+Lemma NB_call_pred F f i : pred_ok f -> NB F no_ids (call_pred f i).
+Proof.
+  intros Hf w Hw HF. unfold call_pred, bind, p_ref.
+  destruct (nth_error (slots (self w)) i) as [[p|]|] eqn:Hn; try exact I.
+  destruct (Hf (cb w) (fst p) (snd p)) as [Hle Hid].
+  destruct (f (cb w) (fst p) (snd p)) as [[r v'] s]. cbn [fst snd] in *.
+  assert (Hok : okw E {| cb := s; log := log w ++ [EvCall 0];
+                         self := {| len := len (self w); slots := upd (slots (self w)) i (Some (fst p, v')) |} |}).
+  { unfold okw, okm, nid, owned. cbn [cb self slots].
+    eapply ltn_incl; [apply ids_slots_upd_incl|]. apply ltn_app; [eapply ltn_mono; [exact Hle | exact Hw]|].
+    pose proof (ids_slots_nth E _ _ _ Hn) as Hp. intros id Hin. unfold ids_pair in Hin. cbn [fst snd] in Hin.
+    apply in_app_or in Hin. assert (Hx : In id (ids_pair E p)).
+    { unfold ids_pair. apply in_or_app. destruct Hin as [H|H]; [left; exact H | right; apply Hid; exact H]. }
+    specialize (Hw id (Hp id Hx)). unfold nid in Hw. lia. }
+  destruct r as [b|]; (split; [exact Hok|]); [split; [apply ltn_nil|]|]; unfold nid; cbn [cb]; exact Hle.
+Qed.
+
+Lemma NB_retain_loop f : pred_ok f -> forall fuel i F, NB F no_ids (retain_loop E debug f fuel i).
+Proof.
+  intros Hf. induction fuel as [|fuel IH]; intros i F; cbn [retain_loop]; pose proof (NB_call_pred) as Hcp; nb.
+Qed.
+Lemma NB_retain F f : pred_ok f -> NB F no_ids (retain E debug f).
+Proof. intros Hf. unfold retain. pose proof (NB_retain_loop f Hf). nb. Qed.
+
+Lemma NB_contains_key F q : NB F no_ids (contains_key E q).
+Proof. unfold contains_key. nb. Qed.
+Lemma NB_remove F q : NB F (fun r => match r with Some v => idV E v | None => [] end) (remove E debug q).
+Proof. unfold remove. nb. Qed.
+Lemma NB_remove_entry F q :
+  NB F (fun r => match r with Some p => ids_pair E p | None => [] end) (remove_entry E debug q).
+Proof. unfold remove_entry. nb. Qed.
+
+Notation ids_ins := (fun r : nat * option kv => match snd r with Some p => ids_pair E p | None => [] end).
+
+Lemma NB_insert_ii F k v u : incl (ids_pair E (k, v)) F -> NB F ids_ins (insert_ii E debug k v u).
+Proof.
+  intros H. unfold insert_ii.
+  eapply (NB_bind _ _ no_ids); [apply NB_on_unwind; nb|]. intros [i|].
+  - destruct u.
+    + eapply NB_bind; [apply NB_p_replace; solve_incl|]. intros old. nb.
+    + eapply NB_bind; [apply NB_p_replace; solve_incl|]. intros old. nb.
+  - eapply NB_bind; [nb_leaf|]. intros i. eapply NB_bind; [nb_leaf|]. intros c.
+    eapply (NB_bind _ _ no_ids); [apply NB_on_unwind; nb|]. intros ?. nb.
+Qed.
+
+Lemma NB_insert_ii_for_full F k v u : incl (ids_pair E (k, v)) F ->
+  NB F (fun r : option (nat * kv) => match r with Some x => ids_pair E (snd x) | None => [] end)
+     (insert_ii_for_full E k v u).
+Proof.
+  intros H. unfold insert_ii_for_full.
+  eapply (NB_bind _ _ no_ids); [apply NB_on_unwind; nb|]. intros [i|].
+  - destruct u.
+    + eapply NB_bind; [apply NB_p_replace; solve_incl|]. intros old. nb.
+    + eapply NB_bind; [apply NB_p_replace; solve_incl|]. intros old. nb.
+  - nb.
+Qed.
+
+Lemma NB_insert_i_loop k : forall fuel i F, NB F ids_ins (insert_i_loop E debug k fuel i).
+Proof. induction fuel as [|fuel IH]; intros i F; cbn [insert_i_loop]; nb. Qed.
+Hint Resolve NB_insert_i_loop NB_insert_ii NB_insert_ii_for_full NB_contains_key NB_remove NB_remove_entry : nb.
+
+Lemma NB_insert_i F k v u : incl (ids_pair E (k, v)) F -> NB F ids_ins (insert_i E debug k v u).
+Proof.
+  intros H. unfold insert_i. eapply NB_bind; [nb_leaf|]. intros n.
+  eapply NB_bind; [apply NB_on_unwind; [apply NB_insert_i_loop | nb]|]. intros [target existing].
+  eapply (NB_bind _ _ no_ids); [nb|]. intros ?.
+  destruct existing as [[old_k old_v]|]; [destruct u|]; nb.
+Qed.
+
+Notation ids_optv := (fun r : option V => match r with Some v => idV E v | None => [] end).
+Notation ids_optp := (fun r : option kv => match r with Some p => ids_pair E p | None => [] end).
+
+Lemma NB_keep_value F e : incl (ids_optp e) F -> NB F ids_optv (keep_value E e).
+Proof. intros H. unfold keep_value. destruct e as [[k' v']|]; nb. Qed.
+
+Lemma NB_insert F k v : incl (ids_pair E (k, v)) F -> NB F ids_optv (insert E debug k v).
+Proof.
+  intros H. unfold insert. eapply NB_bind; [apply NB_insert_ii; exact H|]. intros [i e].
+  apply NB_keep_value. solve_incl.
+Qed.
+Lemma NB_insert_key_value F k v : incl (ids_pair E (k, v)) F -> NB F ids_optp (insert_key_value E debug k v).
+Proof.
+  intros H. unfold insert_key_value. eapply NB_bind; [apply NB_insert_ii; exact H|]. intros [i e]. nb.
+Qed.
+Lemma NB_insert_unchecked F k v : incl (ids_pair E (k, v)) F -> NB F ids_optv (insert_unchecked E debug k v).
+Proof.
+  intros H. unfold insert_unchecked. eapply NB_bind; [apply NB_insert_i; exact H|]. intros [i e].
+  apply NB_keep_value. solve_incl.
+Qed.
+Lemma NB_checked_insert F k v : incl (ids_pair E (k, v)) F ->
+  NB F (fun r : option (option V) => match r with Some (Some v0) => idV E v0 | _ => [] end) (checked_insert E debug k v).
+Proof.
+  intros H. unfold checked_insert. eapply NB_bind; [nb_leaf|]. intros n. eapply NB_bind; [nb_leaf|]. intros c.
+  destruct (n <? c).
+  - eapply NB_bind; [apply NB_insert_ii; exact H|]. intros [i e].
+    eapply NB_bind; [apply NB_keep_value; solve_incl|]. intros r. nb.
+  - eapply NB_bind; [apply NB_insert_ii_for_full; exact H|]. intros [[i [k' v']]|]; nb.
+Qed.
+Hint Resolve NB_insert NB_insert_key_value NB_insert_unchecked NB_checked_insert NB_keep_value : nb.
+
+Lemma NB_get F q : NB F no_ids (get E q).
+Proof. unfold get. nb. Qed.
+Lemma NB_get_mut F q : NB F no_ids (get_mut E q).
+Proof. unfold get_mut. nb. Qed.
+Lemma NB_get_key_value F q : NB F no_ids (get_key_value E q).
+Proof. unfold get_key_value. nb. Qed.
+Hint Resolve NB_get NB_get_mut NB_get_key_value : nb.
+Lemma NB_index F q : NB F no_ids (index E q).
+Proof. unfold index. nb. Qed.
+Lemma NB_index_mut F q : NB F no_ids (index_mut E q).
+Proof. unfold index_mut. nb. Qed.
+Hint Resolve NB_index NB_index_mut : nb.
+
+Lemma NB_cbk_QQ F q q' : NB F no_ids (cbk (fun s => eqQQ E s q q')).
+Proof. apply NB_cbk. intros s. apply (eo_eqQQ E HE). Qed.
+Lemma NB_cbk_QK F q a : NB F no_ids (cbk (fun s => eqQK E s q a)).
+Proof. apply NB_cbk. intros s. apply (eo_eqQK E HE). Qed.
+Lemma NB_cbk_V F a b : NB F no_ids (cbk (fun s => eqV E s a b)).
+Proof. apply NB_cbk. intros s. apply (eo_eqV E HE). Qed.
+Hint Resolve NB_cbk_QQ NB_cbk_QK NB_cbk_V : nb.
+
+Lemma NB_assert_ne_all F k rest : NB F no_ids (assert_ne_all E k rest).
+Proof. induction rest as [|k' rest IH]; cbn [assert_ne_all]; nb. Qed.
+Hint Resolve NB_assert_ne_all : nb.
+Lemma NB_assert_distinct F ks : NB F no_ids (assert_distinct E ks).
+Proof. induction ks as [|k rest IH]; cbn [assert_distinct]; nb. Qed.
+Lemma NB_position ks p : forall j F, NB F no_ids (position E ks p j).
+Proof. induction ks as [|k ks IH]; intros j F; cbn [position]; nb. Qed.
+Hint Resolve NB_assert_distinct NB_position : nb.
+Lemma NB_fill_stack ks J n : forall i stack F, NB F no_ids (fill_stack E ks J n i stack).
+Proof. induction n as [|n IH]; intros i stack F; cbn [fill_stack]; nb. Qed.
+Lemma NB_split_back J st : forall rest out F, NB F no_ids (@split_back key V cstate J st rest out).
+Proof. induction st as [|[pair_i ks_i] st IH]; intros rest out F; cbn [split_back]; nb. Qed.
+Hint Resolve NB_fill_stack NB_split_back : nb.
+Lemma NB_get_disjoint_unchecked_mut F ks : NB F no_ids (get_disjoint_unchecked_mut E ks).
+Proof. unfold get_disjoint_unchecked_mut. destruct ks as [|k [|k2 ks']]; nb. Qed.
+Hint Resolve NB_get_disjoint_unchecked_mut : nb.
+Lemma NB_get_disjoint_mut F ks : NB F no_ids (get_disjoint_mut E ks).
+Proof. unfold get_disjoint_mut. destruct ks as [|k ks']; nb. Qed.
+Hint Resolve NB_get_disjoint_mut : nb.
+
+(* Clone: the only place (with Default and the decoders) where new identities appear *)
+Lemma NB_cloneK F k : NB F (idK E) (cbo (fun s => cloneK E s k)).
+Proof.
+  apply NB_cbo. intros s. destruct (eo_cloneK E HE s k) as [H1 H2]. split; [exact H1|].
+  destruct (fst (cloneK E s k)); [|exact I]. intros id Hid. left. apply H2. exact Hid.
+Qed.
+Lemma NB_cloneV F v : NB F (idV E) (cbo (fun s => cloneV E s v)).
+Proof.
+  apply NB_cbo. intros s. destruct (eo_cloneV E HE s v) as [H1 H2]. split; [exact H1|].
+  destruct (fst (cloneV E s v)); [|exact I]. intros id Hid. left. apply H2. exact Hid.
+Qed.
+Hint Resolve NB_cloneK NB_cloneV : nb.
+
+Lemma NB_clone_pair F p : NB F (ids_pair E) (clone_pair E p).
+Proof.
+  unfold clone_pair. eapply (NB_bind _ _ no_ids); [nb_leaf|]. intros ?.
+  eapply NB_bind; [apply NB_cloneK|]. intros k'.
+  eapply (NB_bind _ _ no_ids); [nb_leaf|]. intros ?.
+  eapply NB_bind; [apply NB_on_unwind; [apply NB_cloneV | nb]|]. intros v'. nb.
+Qed.
+Hint Resolve NB_clone_pair : nb.
+Lemma NB_clone_loop src n : forall i F, NB F no_ids (clone_loop E src n i).
+Proof.
+  induction n as [|n IH]; intros i F; cbn [clone_loop]; [nb|].
+  destruct (nth_error (slots src) i) as [[p|]|]; nb.
+Qed.
+Hint Resolve NB_clone_loop : nb.
+Lemma NB_clone_from_src F src : NB F no_ids (clone_from_src E src).
+Proof. unfold clone_from_src. apply NB_finally_drop. nb. Qed.
+
+Hint Resolve NB_clone_from_src : nb.
+
+Lemma NB_eq_loop a b n : forall i F, incl (owned E b) F -> NB F no_ids (eq_loop E a b n i).
+Proof.
+  induction n as [|n IH]; intros i F Hb; cbn [eq_loop]; [nb|].
+  destruct (nth_error (slots a) i) as [[[k v]|]|]; nb.
+Qed.
+Lemma NB_map_eq F a b : incl (owned E b) F -> NB F no_ids (map_eq E a b).
+Proof.
+  intros Hb. unfold map_eq. destruct (len a =? len b); [|nb].
+  destruct (len a <=? cap a); [|nb]. apply NB_eq_loop. exact Hb.
+Qed.
+
+Definition nx_ok (nx : cstate -> ans * cstate) : Prop := forall s, next_id (snd (nx s)) = next_id s.
+
+Lemma NB_call_next F nx : nx_ok nx -> NB F no_ids (@call_next key V cstate nx).
+Proof. intros H. unfold call_next. pose proof (NB_cbk E) as Hc. nb. Qed.
+Lemma NB_drop_opt_val F o : NB F no_ids (drop_opt_val E o).
+Proof. unfold drop_opt_val. destruct o; nb. Qed.
+Hint Resolve NB_drop_opt_val : nb.
+
+Lemma NB_extend_loop nx : nx_ok nx -> forall items F,
+  incl (flat_map (ids_pair E) items) F -> NB F no_ids (extend_loop E debug nx items).
+Proof.
+  intros Hn. induction items as [|[k v] rest IH]; intros F Hi; cbn [extend_loop]; [apply NB_call_next; exact Hn|].
+  cbn [flat_map] in Hi.
+  eapply (NB_bind _ _ no_ids); [apply NB_on_unwind; [apply NB_call_next; exact Hn | nb]|]. intros ?.
+  eapply (NB_bind _ _ no_ids).
+  { apply NB_on_unwind; [|nb]. eapply NB_bind; [apply NB_insert; solve_incl|]. intros old. nb. }
+  intros ?. apply IH. solve_incl.
+Qed.
+Lemma NB_from_iter F nx items : nx_ok nx -> incl (flat_map (ids_pair E) items) F ->
+  NB F no_ids (from_iter E debug nx items).
+Proof. intros Hn Hi. unfold from_iter. apply NB_finally_drop. apply NB_extend_loop; assumption. Qed.
+
+Lemma NB_drain F : NB F no_ids (@drain key V cstate).
+Proof. unfold drain. nb. Qed.
+Lemma NB_drain_next F c :
+  NB F (fun r : option kv * cursor => match fst r with Some p => ids_pair E p | None => [] end)
+     (@drain_next key V cstate c).
+Proof. unfold drain_next. destruct c as [lo hi]. nb. Qed.
+Lemma NB_iter F : NB F no_ids (@iter key V cstate).
+Proof. unfold iter. nb. Qed.
+Lemma NB_iter_next F c : NB F no_ids (@iter_next key V cstate c).
+Proof. unfold iter_next. destruct c as [lo hi]. nb. Qed.
+Lemma NB_into_iter_next F : NB F ids_optp (@into_iter_next key V cstate).
+Proof. unfold into_iter_next. eapply NB_bind; [nb_leaf|]. intros [|n']; nb. Qed.
+Hint Resolve NB_drain NB_drain_next NB_iter NB_iter_next NB_into_iter_next NB_map_eq : nb.
+
+(* ---- EntryOps.v ---- *)
+Notation ids_entry := (fun e : @entry key => match e with Occupied _ => [] | Vacant k => idK E k end).
+
+Lemma NB_entry_of F k : incl (idK E k) F -> NB F ids_entry (entry_of E k).
+Proof.
+  intros H. unfold entry_of. eapply (NB_bind _ _ no_ids); [apply NB_on_unwind; nb|]. intros [i|]; nb.
+Qed.
+Lemma NB_occ_key F i : NB F no_ids (@occ_key key V cstate i).
+Proof. unfold occ_key. nb. Qed.
+Lemma NB_occ_get F i : NB F no_ids (@occ_get key V cstate i).
+Proof. unfold occ_get. nb. Qed.
+Lemma NB_occ_get_mut F i : NB F no_ids (@occ_get_mut key V cstate i).
+Proof. unfold occ_get_mut. nb. Qed.
+Lemma NB_occ_into_mut F i : NB F no_ids (@occ_into_mut key V cstate i).
+Proof. unfold occ_into_mut. nb. Qed.
+Lemma NB_occ_insert F i v : incl (idV E v) F -> NB F (idV E) (@occ_insert key V cstate i v).
+Proof.
+  intros H. unfold occ_insert. eapply NB_bind; [apply NB_p_replace; solve_incl|]. intros old. nb.
+Qed.
+Lemma NB_occ_remove_entry F i : NB F (ids_pair E) (@occ_remove_entry key V cstate debug i).
+Proof. unfold occ_remove_entry. nb. Qed.
+Lemma NB_occ_remove F i : NB F (idV E) (occ_remove E debug i).
+Proof. unfold occ_remove. nb. Qed.
+Hint Resolve NB_occ_key NB_occ_get NB_occ_get_mut NB_occ_into_mut NB_occ_insert NB_occ_remove_entry NB_occ_remove : nb.
+Lemma NB_vac_insert F k v : incl (ids_pair E (k, v)) F -> NB F no_ids (vac_insert E debug k v).
+Proof.
+  intros H. unfold vac_insert. eapply NB_bind; [apply NB_insert_ii; exact H|]. intros [index e].
+  destruct e; nb.
+Qed.
+Hint Resolve NB_vac_insert : nb.
+
+(* a closure producing a value: the counter does not decrease; the value is new
+   (below the new counter) or one of the free identities *)
+Definition mk_ok (F : list N) (f : cstate -> option V * cstate) : Prop :=
+  forall s, (next_id s <= next_id (snd (f s)))%N /\
+            match fst (f s) with
+            | Some v => forall id, In id (idV E v) -> (id < next_id (snd (f s)))%N \/ In id F
+            | None => True end.
+Lemma NB_call_mk F f : mk_ok F f -> NB F (idV E) (@call_mk key V cstate f).
+Proof. intros H. unfold call_mk. eapply (NB_bind _ _ no_ids); [nb_leaf|]. intros ?.
+  eapply NB_conseq; [apply (NB_cbo E F (idV E) f H) | solve_incl | solve_incl]. Qed.
+
+Definition modf_ok (f : @modf_t V cstate) : Prop :=
+  forall s v, (next_id s <= next_id (snd (f s v)))%N /\ incl (idV E (snd (fst (f s v)))) (idV E v).
+
+Lemma NB_call_modf F f i : modf_ok f -> NB F no_ids (call_modf f i).
+Proof.
+  intros Hf w Hw HF. unfold call_modf, bind, p_ref.
+  destruct (nth_error (slots (self w)) i) as [[p|]|] eqn:Hn; try exact I.
+  destruct (Hf (cb w) (snd p)) as [Hle Hid].
+  destruct (f (cb w) (snd p)) as [[boom v'] s]. cbn [fst snd] in *.
+  assert (Hok : okw E {| cb := s; log := log w ++ [EvCall 3];
+                         self := {| len := len (self w); slots := upd (slots (self w)) i (Some (fst p, v')) |} |}).
+  { unfold okw, okm, nid, owned. cbn [cb self slots].
+    eapply ltn_incl; [apply ids_slots_upd_incl|]. apply ltn_app; [eapply ltn_mono; [exact Hle | exact Hw]|].
+    pose proof (ids_slots_nth E _ _ _ Hn) as Hp. intros id Hin. unfold ids_pair in Hin. cbn [fst snd] in Hin.
+    apply in_app_or in Hin. assert (Hx : In id (ids_pair E p)).
+    { unfold ids_pair. apply in_or_app. destruct Hin as [H|H]; [left; exact H | right; apply Hid; exact H]. }
+    specialize (Hw id (Hp id Hx)). unfold nid in Hw. lia. }
+  destruct boom; (split; [exact Hok|]); [|split; [apply ltn_nil|]]; unfold nid; cbn [cb]; exact Hle.
+Qed.
+
+Lemma NB_and_modify F e f : modf_ok f -> incl (ids_entry e) F -> NB F ids_entry (and_modify e f).
+Proof. intros Hf H. unfold and_modify. pose proof NB_call_modf as Hm. destruct e; nb. Qed.
+Lemma NB_entry_key F e : incl (ids_entry e) F ->
+  NB F (fun x : nat + key => match x with inl _ => [] | inr k => idK E k end) (@entry_key key V cstate e).
+Proof. intros H. unfold entry_key. destruct e; nb. Qed.
+Lemma NB_or_insert F e v : incl (ids_entry e) F -> incl (idV E v) F -> NB F no_ids (or_insert E debug e v).
+Proof. intros H1 H2. unfold or_insert. destruct e; nb. Qed.
+Lemma NB_or_insert_with F e f : incl (ids_entry e) F -> mk_ok F f -> NB F no_ids (or_insert_with E debug e f).
+Proof.
+  intros H1 H2. unfold or_insert_with. destruct e as [i|k]; [nb|].
+  eapply NB_bind; [apply NB_on_unwind; [apply NB_call_mk; exact H2 | nb]|]. intros v. nb.
+Qed.
+Lemma NB_or_insert_with_key F e f : incl (ids_entry e) F -> (forall k, mk_ok F (f k)) ->
+  NB F no_ids (or_insert_with_key E debug e f).
+Proof.
+  intros H1 H2. unfold or_insert_with_key. destruct e as [i|k]; [nb|].
+  eapply NB_bind; [apply NB_on_unwind; [apply NB_call_mk; apply H2 | nb]|]. intros v. nb.
+Qed.
+
+End NBOps.
+
+#[global] Hint Resolve
+  NB_p_read NB_p_write NB_p_write_checked NB_p_prefix NB_dbg_assert NB_dec_len NB_check_index
+  NB_cbd_dropK NB_cbd_dropV NB_drop_key NB_drop_val NB_drop_pair NB_drop_args NB_unwind_key NB_unwind_val
+  NB_unwind_pair NB_unwind_args NB_unwind_pairs NB_p_drop NB_scan_q NB_scan_k NB_test_q NB_test_k
+  NB_drop_range NB_unwind_range NB_clear NB_drop_map NB_unwind_map NB_unwind_drain NB_drain_drop
+  NB_remove_index_read NB_remove_index_drop NB_call_pred NB_retain_loop NB_retain
+  NB_contains_key NB_remove NB_remove_entry NB_insert_i_loop NB_insert_ii NB_insert_ii_for_full NB_insert_i
+  NB_keep_value NB_insert NB_insert_key_value NB_insert_unchecked NB_checked_insert
+  NB_get NB_get_mut NB_get_key_value NB_index NB_index_mut NB_cbk_QQ NB_cbk_QK NB_cbk_V
+  NB_assert_ne_all NB_assert_distinct NB_position NB_fill_stack NB_split_back
+  NB_get_disjoint_unchecked_mut NB_get_disjoint_mut NB_cloneK NB_cloneV NB_clone_pair NB_clone_loop
+  NB_clone_from_src NB_eq_loop NB_map_eq NB_call_next NB_drop_opt_val NB_extend_loop NB_from_iter
+  NB_drain NB_drain_next NB_iter NB_iter_next NB_into_iter_next
+  NB_entry_of NB_occ_key NB_occ_get NB_occ_get_mut NB_occ_into_mut NB_occ_insert NB_occ_remove_entry
+  NB_occ_remove NB_vac_insert NB_call_mk NB_call_modf NB_and_modify NB_entry_key NB_or_insert
+  NB_or_insert_with NB_or_insert_with_key : nb.
+
+Ltac nb_extra ::=
+  lazymatch goal with
+  | |- NB _ _ _ (finally_drop _ _) => eapply NB_finally_drop; [solve [eauto with nb] | nb]
+  end.
+
+(* ---- SetOps.v ---- *)
+Section NBSet.
+Context (E : env key unit query cstate) (HE : EnvOK E) (HU : idV E tt = []) (debug : bool).
+Notation M := (M key unit cstate). Notation smap := (map key unit).
+Notation NB := (NB E).
+
+Lemma incl_pair_unit k F : incl (idK E k) F -> incl (ids_pair E (k, tt)) F.
+Proof. intros H. unfold ids_pair. cbn [fst snd]. rewrite HU, app_nil_r. exact H. Qed.
+
+Lemma NB_s_contains F q : NB F no_ids (s_contains E q).
+Proof. unfold s_contains. nb. Qed.
+Lemma NB_s_remove F q : NB F no_ids (s_remove E debug q).
+Proof. unfold s_remove. nb. Qed.
+Lemma NB_s_insert F k : incl (idK E k) F -> NB F no_ids (s_insert E debug k).
+Proof.
+  intros H. unfold s_insert. eapply NB_bind; [apply (NB_insert E HE); apply incl_pair_unit; exact H|]. intros r. nb.
+Qed.
+Lemma NB_s_get F q : NB F no_ids (s_get E q).
+Proof. unfold s_get. nb. Qed.
+Lemma NB_s_take F q : NB F (fun r : option key => match r with Some k => idK E k | None => [] end) (s_take E debug q).
+Proof. unfold s_take. eapply NB_bind; [nb_leaf|]. intros [[k u]|]; nb. Qed.
+Lemma NB_s_replace F k : incl (idK E k) F ->
+  NB F (fun r : option key => match r with Some k => idK E k | None => [] end) (s_replace E debug k).
+Proof.
+  intros H. unfold s_replace. eapply NB_bind; [apply (NB_insert_ii E HE); apply incl_pair_unit; exact H|].
+  intros [i [[k0 u]|]]; nb.
+Qed.
+Lemma NB_s_clear F : NB F no_ids (s_clear E).
+Proof. unfold s_clear. nb. Qed.
+Lemma NB_s_retain F f : (forall s k, (next_id s <= next_id (snd (f s k)))%N) -> NB F no_ids (s_retain E debug f).
+Proof.
+  intros Hf. unfold s_retain. apply (NB_retain E HE). intros s k v. specialize (Hf s k).
+  destruct (f s k) as [r s']. cbn [fst snd] in *. split; [exact Hf | apply incl_refl].
+Qed.
+Hint Resolve NB_s_contains NB_s_remove NB_s_insert NB_s_get NB_s_take NB_s_replace NB_s_clear : nb.
+
+Lemma NB_s_extend_loop nx : nx_ok nx -> forall items F,
+  incl (flat_map (idK E) items) F -> NB F no_ids (s_extend_loop E debug nx items).
+Proof.
+  intros Hn. induction items as [|k rest IH]; intros F Hi; cbn [s_extend_loop]; [apply (NB_call_next E); exact Hn|].
+  cbn [flat_map] in Hi. pose proof (NB_call_next E (V:=unit)) as Hcn.
+  eapply (NB_bind _ _ no_ids); [apply NB_on_unwind; [apply Hcn; exact Hn | nb]|]. intros ?.
+  eapply (NB_bind _ _ no_ids).
+  { apply NB_on_unwind; [|nb]. eapply NB_bind; [apply NB_s_insert; solve_incl|]. intros ?. nb. }
+  intros ?. apply IH. solve_incl.
+Qed.
+Lemma NB_s_from_iter F nx items : nx_ok nx -> incl (flat_map (idK E) items) F ->
+  NB F no_ids (s_from_iter E debug nx items).
+Proof. intros Hn Hi. unfold s_from_iter. apply (NB_finally_drop E HE). apply NB_s_extend_loop; assumption. Qed.
+
+(* set algebra: the operands a, b are parameters; the current container is left alone *)
+Lemma NB_contains_in F' (m : smap) k : incl (owned E m) F' -> NB F' no_ids (contains_in E m k).
+Proof. intros Hm. unfold contains_in. nb. Qed.
+Lemma NB_siter_next F' (m : smap) c : incl (owned E m) F' -> NB F' no_ids (siter_next m c).
+Proof. intros Hm. unfold siter_next. nb. Qed.
+Lemma NB_difference F' (m : smap) : incl (owned E m) F' -> NB F' no_ids (difference m).
+Proof. intros Hm. unfold difference. nb. Qed.
+Hint Resolve NB_contains_in NB_siter_next NB_difference : nb.
+
+Lemma NB_filter_next F' (x y : smap) want n : incl (owned E y) F' -> forall lo, NB F' no_ids (filter_next E x y want n lo).
+Proof.
+  intros Hy. induction n as [|n IH]; intros lo; cbn [filter_next]; [nb|].
+  destruct (nth_error (slots x) lo) as [[[k u]|]|]; nb.
+Qed.
+Lemma NB_filter_fold (x y : smap) want n : forall lo acc F', incl (owned E y) F' -> NB F' no_ids (filter_fold E x y want n lo acc).
+Proof.
+  induction n as [|n IH]; intros lo acc F' Hy; cbn [filter_fold]; [nb|].
+  destruct (nth_error (slots x) lo) as [[[k u]|]|]; nb.
+Qed.
+Lemma NB_siter_fold (y : smap) n : forall lo acc F', NB F' no_ids (@siter_fold key cstate y n lo acc).
+Proof.
+  induction n as [|n IH]; intros lo acc F'; cbn [siter_fold]; [nb|].
+  destruct (nth_error (slots y) lo) as [[p|]|]; nb.
+Qed.
+Lemma NB_all_in (x y : smap) want n : forall lo F', incl (owned E y) F' -> NB F' no_ids (all_in E x y want n lo).
+Proof.
+  induction n as [|n IH]; intros lo F' Hy; cbn [all_in]; [nb|].
+  destruct (nth_error (slots x) lo) as [[[k u]|]|]; nb.
+Qed.
+Hint Resolve NB_filter_next NB_filter_fold NB_siter_fold NB_all_in : nb.
+
+Lemma NB_diff_next F' (x y : smap) c : incl (owned E y) F' -> NB F' no_ids (diff_next E x y c).
+Proof. intros Hy. unfold diff_next. nb. Qed.
+Lemma NB_inter_next F' (x y : smap) c : incl (owned E y) F' -> NB F' no_ids (inter_next E x y c).
+Proof. intros Hy. unfold inter_next. nb. Qed.
+Lemma NB_diff_fold F' (x y : smap) c acc : incl (owned E y) F' -> NB F' no_ids (diff_fold E x y c acc).
+Proof. intros Hy. unfold diff_fold. nb. Qed.
+Lemma NB_inter_fold F' (x y : smap) c acc : incl (owned E y) F' -> NB F' no_ids (inter_fold E x y c acc).
+Proof. intros Hy. unfold inter_fold. nb. Qed.
+Hint Resolve NB_diff_next NB_inter_next NB_diff_fold NB_inter_fold : nb.
+
+Lemma NB_union F (a b : smap) : incl (owned E a) F -> incl (owned E b) F -> NB F no_ids (union a b).
+Proof. intros Ha Hb. unfold union. nb. Qed.
+Lemma NB_union_next F (a b : smap) u : incl (owned E a) F -> incl (owned E b) F -> NB F no_ids (union_next E a b u).
+Proof. intros Ha Hb. unfold union_next. destruct (front u); nb. Qed.
+Lemma NB_union_fold F (a b : smap) u : incl (owned E a) F -> incl (owned E b) F -> NB F no_ids (union_fold E a b u).
+Proof. intros Ha Hb. unfold union_fold. destruct (front u); nb. Qed.
+Lemma NB_symdiff F (a b : smap) : incl (owned E a) F -> incl (owned E b) F -> NB F no_ids (symdiff a b).
+Proof. intros Ha Hb. unfold symdiff. nb. Qed.
+Lemma NB_symdiff_next F (a b : smap) u : incl (owned E a) F -> incl (owned E b) F -> NB F no_ids (symdiff_next E a b u).
+Proof. intros Ha Hb. unfold symdiff_next. destruct (front u); nb. Qed.
+Lemma NB_symdiff_fold F (a b : smap) u : incl (owned E a) F -> incl (owned E b) F -> NB F no_ids (symdiff_fold E a b u).
+Proof. intros Ha Hb. unfold symdiff_fold. destruct (front u); nb. Qed.
+Lemma NB_iter_all F' (x y : smap) want : incl (owned E x) F' -> incl (owned E y) F' -> NB F' no_ids (iter_all E x y want).
+Proof. intros Hx Hy. unfold iter_all. nb. Qed.
+Hint Resolve NB_iter_all : nb.
+Lemma NB_is_disjoint F (a b : smap) : incl (owned E a) F -> incl (owned E b) F -> NB F no_ids (is_disjoint E a b).
+Proof. intros Ha Hb. unfold is_disjoint. nb. Qed.
+Lemma NB_is_subset F' (x y : smap) : incl (owned E x) F' -> incl (owned E y) F' -> NB F' no_ids (is_subset E x y).
+Proof. intros Hx Hy. unfold is_subset. nb. Qed.
+Lemma NB_is_superset F (a b : smap) : incl (owned E a) F -> incl (owned E b) F -> NB F no_ids (is_superset E a b).
+Proof. intros Ha Hb. unfold is_superset. apply NB_is_subset; assumption. Qed.
+
+Lemma NB_clone_key F' k : NB F' (idK E) (clone_key E k).
+Proof. unfold clone_key. nb. Qed.
+Hint Resolve NB_clone_key : nb.
+Lemma NB_sub_loop (a b : smap) fuel : forall c F', incl (owned E b) F' -> NB F' no_ids (sub_loop E debug a b fuel c).
+Proof.
+  induction fuel as [|fuel IH]; intros c F' Hy; cbn [sub_loop]; [nb|].
+  eapply NB_bind; [nb_leaf|]. intros [[i|] c']; [|nb].
+  destruct (nth_error (slots a) i) as [[[k u]|]|]; nb.
+Qed.
+Lemma NB_set_sub F (a b : smap) : incl (owned E a) F -> incl (owned E b) F -> NB F no_ids (set_sub E debug a b).
+Proof. intros Ha Hb. unfold set_sub. pose proof (NB_sub_loop a b). nb. Qed.
+End NBSet.
+
+#[global] Hint Resolve NB_s_contains NB_s_remove NB_s_insert NB_s_get NB_s_take NB_s_replace NB_s_clear
+  NB_s_retain NB_s_extend_loop NB_s_from_iter NB_contains_in NB_siter_next NB_difference NB_filter_next
+  NB_filter_fold NB_siter_fold NB_all_in NB_diff_next NB_inter_next NB_diff_fold NB_inter_fold
+  NB_union NB_union_next NB_union_fold NB_symdiff NB_symdiff_next NB_symdiff_fold NB_iter_all
+  NB_is_disjoint NB_is_subset NB_is_superset NB_clone_key NB_sub_loop NB_set_sub : nb.
+
+(* ---- Exec.v: the sessions that are generic in the element type ---- *)
+Section NBExecGen.
+Context {V : Type} (E : env key V query cstate) (HE : EnvOK E) (debug : bool).
+Notation M := (M key V cstate). Notation world := (world key V cstate).
+Notation NB := (NB E).
+
+Lemma NB_put_self_new F n : NB F no_ids (put_self (@new_map key V n)).
+Proof. apply NB_put_self. rewrite cf_owned_new. intros id []. Qed.
+Hint Resolve NB_put_self_new : nb.
+
+Lemma NB_const {A} F (f : world -> A) : NB F no_ids (fun w => Ok (f w) w).
+Proof. apply NB_pure. intros w. split; reflexivity. Qed.
+
+Lemma NB_opt_slot F rp r : NB F no_ids (@opt_slot V rp r).
+Proof. unfold opt_slot. destruct r; nb. Qed.
+Hint Resolve NB_opt_slot : nb.
+
+Lemma NB_replace_with F build body : NB F no_ids build -> NB F no_ids (replace_with E build body).
+Proof.
+  intros Hb. unfold replace_with. eapply NB_bind; [nb_leaf|]. intros c.
+  eapply NB_bind; [apply (NB_swap_self _ _ no_ids); [solve_incl|]|].
+  { eapply NB_conseq; [exact Hb | solve_incl | solve_incl]. }
+  intros [u fresh]. eapply NB_bind; [apply NB_get_self|]. intros old.
+  eapply (NB_bind _ _ no_ids); [apply NB_put_self; solve_incl|]. intros ?.
+  eapply NB_bind; [apply (NB_swap_self _ _ no_ids); [solve_incl | nb]|]. intros [u2 m2]. nb.
+Qed.
+Lemma NB_drop_reg F : NB F no_ids (drop_reg E).
+Proof. unfold drop_reg. nb. Qed.
+
+(* drain sessions *)
+Lemma NB_drain_steps rp n : forall c acc F, NB F no_ids (@drain_steps V rp n c acc).
+Proof. induction n as [|n IH]; intros c acc F; cbn [drain_steps]; nb. Qed.
+Lemma NB_dbg_range F dk dv alt c : NB F no_ids (@dbg_range V dk dv alt c).
+Proof. unfold dbg_range. apply NB_const. Qed.
+Lemma NB_call_or_drain F cl p c : nx_ok cl -> NB F no_ids (call_or_drain E cl p c).
+Proof. intros Hcl. unfold call_or_drain. pose proof (NB_cbk E) as Hk. nb. Qed.
+Hint Resolve NB_drain_steps NB_dbg_range NB_call_or_drain : nb.
+Lemma NB_drain_for_each cl : nx_ok cl -> forall fuel c cnt F, NB F no_ids (drain_for_each E cl fuel c cnt).
+Proof. intros Hcl. induction fuel as [|fuel IH]; intros c cnt F; cbn [drain_for_each]; nb. Qed.
+Lemma NB_drain_count fuel : forall c cnt F, NB F no_ids (drain_count E fuel c cnt).
+Proof. induction fuel as [|fuel IH]; intros c cnt F; cbn [drain_count]; nb. Qed.
+Hint Resolve NB_drain_for_each NB_drain_count : nb.
+Lemma NB_drain_session F rp dk dv with_dbg cl take fate : nx_ok cl ->
+  NB F no_ids (drain_session E rp dk dv with_dbg cl take fate).
+Proof. intros Hcl. unfold drain_session. nb. Qed.
+
+(* nth sessions *)
+Lemma NB_b_skip n : forall c F, NB F no_ids (@b_skip V n c).
+Proof. induction n as [|n IH]; intros c F; cbn [b_skip]; nb. Qed.
+Lemma NB_b_nth n : forall c F, NB F no_ids (@b_nth V n c).
+Proof. induction n as [|n IH]; intros c F; cbn [b_nth]; nb. Qed.
+Lemma NB_r_slot_item F proj o : NB F no_ids (@r_slot_item V proj o).
+Proof. unfold r_slot_item. destruct o; nb. Qed.
+Hint Resolve NB_b_skip NB_b_nth NB_r_slot_item : nb.
+Lemma NB_iter_nth_session F proj pre nk : NB F no_ids (@iter_nth_session V proj pre nk).
+Proof. unfold iter_nth_session. nb. Qed.
+Lemma NB_d_skip n : forall c F, NB F no_ids (@d_skip V n c).
+Proof. induction n as [|n IH]; intros c F; cbn [d_skip]; nb. Qed.
+Lemma NB_d_nth n : forall c F,
+  NB F (fun r : option (key * V) * cursor => match fst r with Some p => ids_pair E p | None => [] end) (d_nth E n c).
+Proof. induction n as [|n IH]; intros c F; cbn [d_nth]; nb. Qed.
+Hint Resolve NB_d_skip NB_d_nth : nb.
+Lemma NB_drain_nth_session F rp pre nk : NB F no_ids (drain_nth_session E rp pre nk).
+Proof. unfold drain_nth_session. nb. Qed.
+
+Section IntoNth.
+Context (item : key * V -> M (list N)) (rest : key * V -> M unit).
+Context (Hitem : forall F p, NB F no_ids (item p)) (Hrest : forall F p, NB F no_ids (rest p)).
+Lemma NB_i_skip n : forall F, NB F no_ids (i_skip item n).
+Proof. induction n as [|n IH]; intros F; cbn [i_skip]; nb. Qed.
+Lemma NB_i_nth n : forall F, NB F no_ids (i_nth item rest n).
+Proof. induction n as [|n IH]; intros F; cbn [i_nth]; nb. Qed.
+Lemma NB_into_nth_session F pre nk : NB F no_ids (into_nth_session E item rest pre nk).
+Proof. unfold into_nth_session. pose proof NB_i_skip. pose proof NB_i_nth. nb. Qed.
+End IntoNth.
+
+(* the decoders: two (one) new identities are taken from the counter *)
+Lemma NB_fresh {A} F (ida : A -> list N) (n : N) (f : N -> M A) :
+  (forall id, NB (List.map (fun j => (id + j)%N) (List.map N.of_nat (seq 0 (N.to_nat n))) ++ F) ida (f id)) ->
+  NB F ida (id <- get_next_id ;; bump_id (id + n) ;; f id).
+Proof.
+  intros Hf w Hw HF. unfold bind, get_next_id, bump_id.
+  set (w1 := {| cb := _; log := log w; self := self w |}).
+  assert (Hn1 : nid w1 = (nid w + n)%N) by reflexivity.
+  assert (Hw1 : okw E w1) by (unfold okw in *; rewrite Hn1; eapply ltn_mono; [|exact Hw]; lia).
+  specialize (Hf (next_id (cb w)) w1 Hw1).
+  assert (HF1 : ltn (nid w1) (List.map (fun j => (next_id (cb w) + j)%N) (List.map N.of_nat (seq 0 (N.to_nat n))) ++ F)).
+  { apply ltn_app; [|eapply ltn_mono; [|exact HF]; lia].
+    intros id Hid. apply in_map_iff in Hid. destruct Hid as (j & <- & Hj).
+    apply in_map_iff in Hj. destruct Hj as (i & <- & Hi). apply in_seq in Hi. rewrite Hn1. unfold nid. lia. }
+  specialize (Hf HF1). destruct (f (next_id (cb w)) w1) as [a w2|w2|]; [| |exact I].
+  - destruct Hf as (H1 & H2 & H3). split; [exact H1|]. split; [exact H2 | lia].
+  - destruct Hf as (H1 & H3). split; [exact H1 | lia].
+Qed.
+
+End NBExecGen.
+
+#[global] Hint Resolve NB_put_self_new NB_opt_slot NB_replace_with NB_drop_reg NB_drain_steps NB_dbg_range
+  NB_call_or_drain NB_drain_for_each NB_drain_count NB_drain_session NB_b_skip NB_b_nth NB_r_slot_item
+  NB_iter_nth_session NB_d_skip NB_d_nth NB_drain_nth_session NB_i_skip NB_i_nth NB_into_nth_session : nb.
+
+(* ---- the interpreter's environments and closures ---- *)
+Lemma call_tick_nid sc s : next_id (snd (call_tick sc s)) = next_id s.
+Proof. reflexivity. Qed.
+
+Lemma clone_tick_ok sc s :
+  (next_id s <= next_id (snd (clone_tick sc s)))%N /\
+  match fst (clone_tick sc s) with Some i => (i < next_id (snd (clone_tick sc s)))%N | None => True end.
+Proof.
+  unfold clone_tick. destruct (N.eqb (sc_fk sc) 2 && N.eqb (sc_fa sc) (n_clone s)); cbn [fst snd next_id]; split; try lia; exact I.
+Qed.
+
+Lemma envok_map sc : EnvOK (env_map sc).
+Proof.
+  constructor; intros; cbn [env_map eqK eqKQ eqQQ eqQK eqV dropK dropV cloneK cloneV idK idV snd];
+    try apply cf_eq_answer_nid; try reflexivity.
+  - unfold clone_key_cb. destruct (clone_tick_ok sc s) as [H1 H2].
+    destruct (clone_tick sc s) as [[i|] s']; cbn [fst snd option_map] in *; (split; [exact H1|]); [|exact I].
+    intros id [<-|[]]. exact H2.
+  - destruct (clone_tick_ok sc s) as [H1 H2].
+    destruct (clone_tick sc s) as [[i|] s']; cbn [fst snd option_map] in *; (split; [exact H1|]); [|exact I].
+    intros id [<-|[]]. exact H2.
+Qed.
+
+Lemma envok_set sc : EnvOK (env_set sc).
+Proof.
+  constructor; intros; cbn [env_set eqK eqKQ eqQQ eqQK eqV dropK dropV cloneK cloneV idK idV snd fst];
+    try apply cf_eq_answer_nid; try reflexivity.
+  - unfold clone_key_cb. destruct (clone_tick_ok sc s) as [H1 H2].
+    destruct (clone_tick sc s) as [[i|] s']; cbn [fst snd option_map] in *; (split; [exact H1|]); [|exact I].
+    intros id [<-|[]]. exact H2.
+  - split; [lia|]. intros id [].
+Qed.
+#[global] Hint Resolve envok_map envok_set : nb.
+
+Lemma nx_ok_cb sc : nx_ok (nx_cb sc).
+Proof. intros s. reflexivity. Qed.
+Lemma nx_ok_none : nx_ok nx_none.
+Proof. intros s. reflexivity. Qed.
+Lemma nx_ok_if sc (b : bool) : nx_ok (if b then nx_none else nx_cb sc).
+Proof. destruct b; [apply nx_ok_none | apply nx_ok_cb]. Qed.
+Lemma pred_ok_m sc dflt tab : pred_ok (env_map sc) (pred_m sc dflt tab).
+Proof.
+  intros s k v. unfold pred_m. destruct (call_tick sc s) as [boom s'] eqn:Hc.
+  assert (Hn : next_id s' = next_id s) by (rewrite <- (call_tick_nid sc s), Hc; reflexivity).
+  destruct boom; [|destruct (N.eqb _ 0); [|destruct (N.eqb _ 1)]]; cbn [fst snd]; (split; [lia | apply incl_refl]).
+Qed.
+Lemma pred_s_nid sc dflt tab s k : (next_id s <= next_id (snd (pred_s sc dflt tab s k)))%N.
+Proof.
+  unfold pred_s. destruct (call_tick sc s) as [boom s'] eqn:Hc.
+  assert (Hn : next_id s' = next_id s) by (rewrite <- (call_tick_nid sc s), Hc; reflexivity).
+  destruct boom; cbn [snd]; lia.
+Qed.
+Lemma mk_ok_val sc F v : incl (idV (env_map sc) v) F -> mk_ok (env_map sc) F (mk_val sc v).
+Proof.
+  intros Hi s. unfold mk_val. destruct (call_tick sc s) as [boom s'] eqn:Hc.
+  assert (Hn : next_id s' = next_id s) by (rewrite <- (call_tick_nid sc s), Hc; reflexivity).
+  destruct boom; cbn [fst snd]; (split; [lia|]); [exact I|]. intros id Hid. right. apply Hi. exact Hid.
+Qed.
+Lemma mk_ok_default sc F : mk_ok (env_map sc) F (mk_default sc).
+Proof.
+  intros s. unfold mk_default. destruct (call_tick sc s) as [boom s'] eqn:Hc.
+  assert (Hn : next_id s' = next_id s) by (rewrite <- (call_tick_nid sc s), Hc; reflexivity).
+  destruct boom; cbn [fst snd next_id]; (split; [lia|]); [exact I|].
+  cbn [env_map idV vid]. intros id [<-|[]]. left. lia.
+Qed.
+Lemma modf_ok_add sc : modf_ok (env_map sc) (modf_add sc).
+Proof.
+  intros s v. unfold modf_add. destruct (call_tick sc s) as [boom s'] eqn:Hc.
+  assert (Hn : next_id s' = next_id s) by (rewrite <- (call_tick_nid sc s), Hc; reflexivity).
+  destruct boom; cbn [fst snd]; (split; [lia | apply incl_refl]).
+Qed.
+#[global] Hint Resolve nx_ok_cb nx_ok_none nx_ok_if pred_ok_m pred_s_nid mk_ok_val mk_ok_default modf_ok_add : nb.
+
+(* ---- Exec.v: Map sessions ---- *)
+Section NBExecMap.
+Context (debug : bool) (sc : script).
+Notation Em := (env_map sc).
+Notation NB := (NB Em).
+
+Lemma NB_set_dat F i d : NB F no_ids (set_dat i d).
+Proof.
+  unfold set_dat. eapply NB_bind; [apply (NB_p_replace Em); solve_incl|]. intros ?. nb.
+Qed.
+Hint Resolve NB_set_dat : nb.
+
+Lemma NB_iter_steps kind wd n : forall j c acc F, NB F no_ids (iter_steps kind wd n j c acc).
+Proof. induction n as [|n IH]; intros j c acc F; cbn [iter_steps]; nb. Qed.
+Lemma NB_dbg_iter F kind alt c : NB F no_ids (dbg_iter kind alt c).
+Proof. unfold dbg_iter. apply NB_const. Qed.
+Lemma NB_rest_slots n : forall lo F, NB F no_ids (rest_slots n lo).
+Proof. induction n as [|n IH]; intros lo F; cbn [rest_slots]; nb. Qed.
+Hint Resolve NB_iter_steps NB_dbg_iter NB_rest_slots : nb.
+Lemma NB_iter_session F kind steps wd : NB F no_ids (iter_session kind steps wd).
+Proof. unfold iter_session. nb. Qed.
+
+Lemma NB_into_steps_item F kind p : NB F no_ids (into_steps_item sc kind p).
+Proof. unfold into_steps_item. nb. Qed.
+Lemma NB_unwind_item F kind p : NB F no_ids (unwind_item sc kind p).
+Proof. unfold unwind_item. nb. Qed.
+Lemma NB_into_rest F kind p : NB F no_ids (into_rest sc kind p).
+Proof. unfold into_rest. nb. Qed.
+Hint Resolve NB_into_steps_item NB_unwind_item NB_into_rest : nb.
+Lemma NB_into_steps kind n : forall acc F, NB F no_ids (into_steps sc kind n acc).
+Proof. induction n as [|n IH]; intros acc F; cbn [into_steps]; nb. Qed.
+Lemma NB_dbg_into F kind alt : NB F no_ids (dbg_into kind alt).
+Proof. unfold dbg_into. apply NB_const. Qed.
+Lemma NB_cbk_nx F : NB F no_ids (cbk (nx_cb sc)).
+Proof. apply NB_cbk. intros s. reflexivity. Qed.
+Hint Resolve NB_into_steps NB_dbg_into NB_cbk_nx : nb.
+Lemma NB_into_for_each kind fuel : forall cnt F, NB F no_ids (into_for_each sc kind fuel cnt).
+Proof. induction fuel as [|fuel IH]; intros cnt F; cbn [into_for_each]; nb. Qed.
+Lemma NB_into_count kind fuel : forall cnt F, NB F no_ids (into_count sc kind fuel cnt).
+Proof. induction fuel as [|fuel IH]; intros cnt F; cbn [into_count]; nb. Qed.
+Hint Resolve NB_into_for_each NB_into_count : nb.
+Lemma NB_into_session F kind take fate : NB F no_ids (into_session sc kind take fate).
+Proof. unfold into_session. nb. Qed.
+
+Lemma NB_r_slotval F tag i : NB F no_ids (r_slotval tag i).
+Proof. unfold r_slotval. nb. Qed.
+Hint Resolve NB_r_slotval : nb.
+Lemma NB_entry_chain F k chain v : incl [kid k; vid v] F -> NB F no_ids (entry_chain debug sc k chain v).
+Proof.
+  intros H. unfold entry_chain.
+  eapply NB_bind; [apply (NB_entry_of Em (envok_map sc)); solve_incl|]. intros e.
+  assert (He : incl (match e with Occupied _ => [] | Vacant k0 => idK Em k0 end)
+                    ((match e with Occupied _ => [] | Vacant k0 => idK Em k0 end) ++ F)) by (apply incl_appl, incl_refl).
+  assert (Hv : incl (idV Em v) ((match e with Occupied _ => [] | Vacant k0 => idK Em k0 end) ++ F)) by solve_incl.
+  repeat lazymatch goal with
+         | |- NB _ _ _ (match ?c with _ => _ end) =>
+             lazymatch type of c with N => destruct c | positive => destruct c end
+         end.
+  all: try (eapply NB_bind;
+            [first [ apply (NB_or_insert Em (envok_map sc)); assumption
+                   | apply (NB_or_insert_with Em (envok_map sc)); [assumption | auto with nb]
+                   | apply (NB_or_insert_with_key Em (envok_map sc)); [assumption | intros; auto with nb] ]
+            | intros ?; nb]).
+  all: try (destruct e; nb).
+Qed.
+
+Lemma NB_disjoint_render wd l : forall j F, NB F no_ids (disjoint_render l wd j).
+Proof. induction l as [|[i|] l IH]; intros j F; cbn [disjoint_render]; nb. Qed.
+Hint Resolve NB_disjoint_render : nb.
+Lemma NB_disjoint_session F unchecked qs wd : NB F no_ids (disjoint_session sc unchecked qs wd).
+Proof. unfold disjoint_session. destruct unchecked; nb. Qed.
+Lemma NB_format_m F style : NB F no_ids (format_m style).
+Proof.
+  unfold format_m. eapply (NB_bind _ _ no_ids); [nb_leaf|]. intros ?. apply (NB_const Em).
+Qed.
+Lemma NB_visit_map items : forall F, NB F no_ids (visit_map debug sc items).
+Proof.
+  induction items as [|[k v] rest IH]; intros F; cbn [visit_map]; [nb|].
+  apply (NB_fresh Em F no_ids 2). intros id. change (List.map N.of_nat (seq 0 (N.to_nat 2))) with [0%N; 1%N]. cbn [List.map].
+  eapply NB_bind; [apply (NB_insert Em (envok_map sc))|].
+  { unfold ids_pair. cbn [fst snd env_map idK idV kid vid]. intros x Hx. cbn [app In] in Hx.
+    rewrite in_app_iff. cbn [In]. rewrite N.add_0_r. tauto. }
+  intros old. nb.
+Qed.
+End NBExecMap.
+
+(* ---- Exec.v: Set sessions ---- *)
+Section NBExecSet.
+Context (debug : bool) (sc : script).
+Notation Es := (env_set sc).
+Notation NB := (NB Es).
+
+Lemma HU_set : idV Es tt = [].
+Proof. reflexivity. Qed.
+
+Lemma NB_format_s F style : NB F no_ids (format_s style).
+Proof.
+  unfold format_s. eapply (NB_bind _ _ no_ids); [nb_leaf|]. intros ?. apply (NB_const Es).
+Qed.
+Lemma NB_visit_seq items : forall F, NB F no_ids (visit_seq debug sc items).
+Proof.
+  induction items as [|k rest IH]; intros F; cbn [visit_seq]; [nb|].
+  apply (NB_fresh Es F no_ids 1). intros id. change (List.map N.of_nat (seq 0 (N.to_nat 1))) with [0%N]. cbn [List.map].
+  eapply NB_bind; [apply (NB_s_insert Es (envok_set sc) HU_set)|].
+  { cbn [env_set idK kid]. intros x Hx. cbn [In] in Hx. rewrite in_app_iff. cbn [In]. rewrite N.add_0_r. tauto. }
+  intros ?. nb.
+Qed.
+
+Lemma NB_r_side F a b x : NB F no_ids (r_side a b x).
+Proof. unfold r_side. destruct (nth_error _ _) as [[p|]|]; nb. Qed.
+Hint Resolve NB_r_side : nb.
+Lemma NB_r_sides a b l : forall F, NB F no_ids (r_sides a b l).
+Proof. induction l as [|x t IH]; intros F; cbn [r_sides]; nb. Qed.
+Hint Resolve NB_r_sides : nb.
+
+
+Lemma NB_rest_slots_s n : forall lo F, NB F no_ids (rest_slots_s n lo).
+Proof. induction n as [|n IH]; intros lo F; cbn [rest_slots_s]; nb. Qed.
+Lemma NB_set_iter_steps n : forall c acc F, NB F no_ids (set_iter_steps n c acc).
+Proof. induction n as [|n IH]; intros c acc F; cbn [set_iter_steps]; nb. Qed.
+Hint Resolve NB_rest_slots_s NB_set_iter_steps : nb.
+Lemma NB_set_iter_session F steps : NB F no_ids (set_iter_session steps).
+Proof. unfold set_iter_session. nb. Qed.
+Lemma NB_set_into_steps n : forall acc F, NB F no_ids (set_into_steps n acc).
+Proof. induction n as [|n IH]; intros acc F; cbn [set_into_steps]; nb. Qed.
+Lemma NB_cbk_nx_s F : NB F no_ids (cbk (nx_cb sc)).
+Proof. apply NB_cbk. intros s. reflexivity. Qed.
+Hint Resolve NB_cbk_nx_s : nb.
+Lemma NB_set_into_for_each fuel : forall cnt F, NB F no_ids (set_into_for_each sc fuel cnt).
+Proof. induction fuel as [|fuel IH]; intros cnt F; cbn [set_into_for_each]; nb. Qed.
+Lemma NB_set_into_count fuel : forall cnt F, NB F no_ids (set_into_count sc fuel cnt).
+Proof. induction fuel as [|fuel IH]; intros cnt F; cbn [set_into_count]; nb. Qed.
+End NBExecSet.
+
+#[global] Hint Resolve NB_set_dat NB_iter_steps NB_dbg_iter NB_rest_slots NB_iter_session NB_into_steps_item
+  NB_unwind_item NB_into_rest NB_into_steps NB_dbg_into NB_cbk_nx NB_into_for_each NB_into_count
+  NB_into_session NB_r_slotval NB_entry_chain NB_disjoint_render NB_disjoint_session NB_format_m NB_visit_map
+  NB_format_s NB_visit_seq NB_r_side NB_r_sides NB_rest_slots_s NB_set_iter_steps
+  NB_set_iter_session NB_set_into_steps NB_cbk_nx_s NB_set_into_for_each NB_set_into_count HU_set : nb.
+
+Section NBExecAlg.
+Context (sc : script).
+Notation Es := (env_set sc).
+Notation NB := (NB Es).
+Context (a b : map key unit) (F0 : list N) (Ha : incl (owned Es a) F0) (Hb : incl (owned Es b) F0).
+
+Lemma NB_alg_init F kind : incl F0 F -> NB F no_ids (alg_init kind a b).
+Proof.
+  intros HF. assert (Ha' : incl (owned Es a) F) by (eapply incl_tran; eauto).
+  assert (Hb' : incl (owned Es b) F) by (eapply incl_tran; eauto).
+  unfold alg_init.
+  destruct (N.eqb kind 2); [nb|]. destruct (N.eqb kind 3); nb.
+Qed.
+Lemma NB_alg_next F kind st : incl F0 F -> NB F no_ids (alg_next sc kind a b st).
+Proof.
+  intros HF. assert (Ha' : incl (owned Es a) F) by (eapply incl_tran; eauto).
+  assert (Hb' : incl (owned Es b) F) by (eapply incl_tran; eauto).
+  unfold alg_next. destruct st as [c|u].
+  - destruct (N.eqb kind 1); nb.
+  - destruct (N.eqb kind 2); nb.
+Qed.
+Lemma NB_alg_fold F kind st : incl F0 F -> NB F no_ids (alg_fold sc kind a b st).
+Proof.
+  intros HF. assert (Ha' : incl (owned Es a) F) by (eapply incl_tran; eauto).
+  assert (Hb' : incl (owned Es b) F) by (eapply incl_tran; eauto).
+  unfold alg_fold. destruct st as [c|u].
+  - destruct (N.eqb kind 1); nb.
+  - destruct (N.eqb kind 2); nb.
+Qed.
+Lemma NB_alg_steps kind n : forall st acc F, incl F0 F -> NB F no_ids (alg_steps sc kind a b n st acc).
+Proof.
+  induction n as [|n IH]; intros st acc F HF; cbn [alg_steps]; [nb|].
+  destruct (alg_hint kind a b st) as [lo hi].
+  eapply NB_bind; [apply NB_alg_next; exact HF|]. intros [[x|] st'].
+  - eapply (NB_bind _ _ no_ids); [nb_leaf|]. intros h. apply IH. solve_incl.
+  - apply IH. solve_incl.
+Qed.
+Lemma NB_alg_session kind steps mode : NB F0 no_ids (alg_session sc kind a b steps mode).
+Proof.
+  unfold alg_session.
+  eapply (NB_bind _ _ no_ids); [apply NB_alg_init; apply incl_refl|]. intros st.
+  eapply (NB_bind _ _ no_ids); [apply NB_alg_steps; solve_incl|]. intros [acc st'].
+  destruct (alg_hint kind a b st') as [lo hi].
+  eapply (NB_bind _ _ no_ids); [apply NB_alg_fold; solve_incl|]. intros dbg.
+  eapply (NB_bind _ _ no_ids); [apply NB_alg_fold; solve_incl|]. intros rest.
+  nb.
+Qed.
+End NBExecAlg.
+
+#[global] Hint Resolve NB_alg_session : nb.
+
+(* ---- H2. the invariant of interpreter states ---- *)
+(* identities do not depend on the script: they are kid / vid *)
+Definition mids (m : map key vobj) : list N := owned (env_map xi_sc0) m.
+Definition sids (m : map key unit) : list N := owned (env_set xi_sc0) m.
+Lemma owned_mids sc m : owned (env_map sc) m = mids m.
+Proof. reflexivity. Qed.
+Lemma owned_sids sc m : owned (env_set sc) m = sids m.
+Proof. reflexivity. Qed.
+
+Definition allx (x : xworld) : list N := mids (xm0 x) ++ mids (xm1 x) ++ sids (xs0 x) ++ sids (xs1 x).
+
+(* every identity held in any slot of any register is below the counter *)
+Definition below (x : xworld) : Prop := forall id, In id (allx x) -> (id < next_id (xcb x))%N.
+
+Lemma init_below c0 c1 c2 c3 : below (init_world c0 c1 c2 c3).
+Proof.
+  intros id Hid. unfold allx, init_world, mids, sids in Hid. cbn [xm0 xm1 xs0 xs1] in Hid.
+  rewrite !cf_owned_new in Hid. destruct Hid.
+Qed.
+
+Lemma incl_get_m r x : incl (mids (get_m r x)) (allx x).
+Proof. unfold get_m, allx. destruct (N.eqb r 0); intros id H; rewrite !in_app_iff; tauto. Qed.
+Lemma incl_get_s r x : incl (sids (get_s r x)) (allx x).
+Proof. unfold get_s, allx. destruct (N.eqb r 2); intros id H; rewrite !in_app_iff; tauto. Qed.
+
+Lemma allx_put_m r m c x id : In id (allx (put_m r m c x)) -> In id (mids m) \/ In id (allx x).
+Proof. unfold put_m, allx. destruct (N.eqb r 0); cbn [xm0 xm1 xs0 xs1]; rewrite !in_app_iff; tauto. Qed.
+Lemma allx_put_s r m c x id : In id (allx (put_s r m c x)) -> In id (sids m) \/ In id (allx x).
+Proof. unfold put_s, allx. destruct (N.eqb r 2); cbn [xm0 xm1 xs0 xs1]; rewrite !in_app_iff; tauto. Qed.
+Lemma xcb_put_m r m c x : xcb (put_m r m c x) = c.
+Proof. unfold put_m. destruct (N.eqb r 0); reflexivity. Qed.
+Lemma xcb_put_s r m c x : xcb (put_s r m c x) = c.
+Proof. unfold put_s. destruct (N.eqb r 2); reflexivity. Qed.
+
+Lemma run_m_below sc r (c : Mm (list N)) x F (ida : list N -> list N) :
+  below x -> ltn (next_id (xcb x)) F -> NB (env_map sc) F ida c ->
+  below (snd (run_m r c x)) /\ (next_id (xcb x) <= next_id (xcb (snd (run_m r c x))))%N.
+Proof.
+  intros Hx HF Hc. unfold run_m.
+  set (w0 := {| cb := xcb x; log := []; self := get_m r x |}).
+  assert (Hw0 : okw (env_map sc) w0).
+  { unfold okw, okm, nid. cbn [cb self w0]. rewrite owned_mids. intros id Hid. apply Hx. apply (incl_get_m r x). exact Hid. }
+  specialize (Hc w0 Hw0 HF).
+  assert (Hput : forall w : world key _ cstate, okw (env_map sc) w -> (nid w0 <= nid w)%N ->
+            below (put_m r (self w) (cb w) x) /\ (next_id (xcb x) <= next_id (xcb (put_m r (self w) (cb w) x)))%N).
+  { intros w H1 H3. rewrite xcb_put_m. unfold nid in H3. cbn [cb w0] in H3. split; [|exact H3].
+    intros id Hid. rewrite xcb_put_m. apply allx_put_m in Hid. destruct Hid as [Hid|Hid].
+    - apply (H1 id). rewrite owned_mids. exact Hid.
+    - specialize (Hx id Hid). lia. }
+  destruct (c w0) as [body w|w|]; cbn [finish snd]; [| |split; [exact Hx | cbn [kill xcb]; lia]].
+  - destruct Hc as (H1 & _ & H3). apply Hput; assumption.
+  - destruct Hc as (H1 & H3). apply Hput; assumption.
+Qed.
+
+Lemma run_s_below sc r (c : Ms (list N)) x F (ida : list N -> list N) :
+  below x -> ltn (next_id (xcb x)) F -> NB (env_set sc) F ida c ->
+  below (snd (run_s r c x)) /\ (next_id (xcb x) <= next_id (xcb (snd (run_s r c x))))%N.
+Proof.
+  intros Hx HF Hc. unfold run_s.
+  set (w0 := {| cb := xcb x; log := []; self := get_s r x |}).
+  assert (Hw0 : okw (env_set sc) w0).
+  { unfold okw, okm, nid. cbn [cb self w0]. rewrite owned_sids. intros id Hid. apply Hx. apply (incl_get_s r x). exact Hid. }
+  specialize (Hc w0 Hw0 HF).
+  assert (Hput : forall w : world key _ cstate, okw (env_set sc) w -> (nid w0 <= nid w)%N ->
+            below (put_s r (self w) (cb w) x) /\ (next_id (xcb x) <= next_id (xcb (put_s r (self w) (cb w) x)))%N).
+  { intros w H1 H3. rewrite xcb_put_s. unfold nid in H3. cbn [cb w0] in H3. split; [|exact H3].
+    intros id Hid. rewrite xcb_put_s. apply allx_put_s in Hid. destruct Hid as [Hid|Hid].
+    - apply (H1 id). rewrite owned_sids. exact Hid.
+    - specialize (Hx id Hid). lia. }
+  destruct (c w0) as [body w|w|]; cbn [finish snd]; [| |split; [exact Hx | cbn [kill xcb]; lia]].
+  - destruct Hc as (H1 & _ & H3). apply Hput; assumption.
+  - destruct Hc as (H1 & H3). apply Hput; assumption.
+Qed.
+
+Lemma flat_map_kid (items : list key) : flat_map (idK (env_set xi_sc0)) items = List.map kid items.
+Proof. induction items as [|k t IH]; [reflexivity|]. cbn [flat_map List.map]. rewrite IH. reflexivity. Qed.
+
+(* EVERY script, every state (no well-formedness, no contract needed: an undefined
+   step leaves registers and counter as they are), all 56 operations: if the
+   stored identities and the identities the operation hands in are below the
+   counter, so are the stored identities afterwards *)
+Theorem step_below debug sc o x :
+  below x -> (forall id, In id (op_ids o) -> (id < next_id (xcb x))%N) ->
+  below (snd (step debug sc o x)) /\ (next_id (xcb x) <= next_id (xcb (snd (step debug sc o x))))%N.
+Proof.
+  intros Hx Hids. unfold step. destruct (xdead x); [split; [exact Hx | cbn [snd]; lia]|].
+  set (F := op_ids o ++ allx x).
+  assert (HF : ltn (next_id (xcb x)) F).
+  { intros id Hid. apply in_app_or in Hid. destruct Hid; [apply Hids | apply Hx]; assumption. }
+  assert (Hm : forall r, incl (owned (env_map sc) (get_m r x)) F).
+  { intros r id Hid. apply in_or_app. right. apply (incl_get_m r x). exact Hid. }
+  assert (Hs : forall r, incl (owned (env_set sc) (get_s r x)) F).
+  { intros r id Hid. apply in_or_app. right. apply (incl_get_s r x). exact Hid. }
+  assert (Ho : incl (op_ids o) F) by (apply incl_appl, incl_refl).
+  clearbody F.
+  destruct o; cbn [op_ids] in Ho;
+    repeat match goal with |- context [if ?b then _ else _] =>
+             lazymatch b with Nat.eqb _ _ => destruct b end end;
+    try (split; [exact Hx | cbn [snd]; lia]);
+    first [ eapply (run_m_below sc _ _ _ F no_ids); [exact Hx | exact HF | ]
+          | eapply (run_s_below sc _ _ _ F no_ids); [exact Hx | exact HF | ] ].
+  all: try (pose proof (Hm r) as Hmr); try (pose proof (Hm r') as Hmr');
+       try (pose proof (Hs r) as Hsr); try (pose proof (Hs r') as Hsr').
+  all: clear Hm Hs Hx Hids HF.
+  all: try solve [nb].
+  all: try solve [apply NB_replace_with; [auto with nb | nb]].
+  - (* OWithCapacity *)
+    eapply NB_bind; [nb_leaf|]. intros n. destruct (with_capacity_ok c n); [|nb].
+    apply NB_replace_with; [auto with nb | nb].
+  - (* SIntoNth *)
+    eapply NB_bind; [nb_leaf|]. intros c. eapply NB_bind; [apply NB_get_self|]. intros old.
+    eapply (NB_bind _ _ no_ids); [nb_leaf|]. intros ?.
+    eapply NB_bind; [apply (NB_swap_self _ _ no_ids); [solve_incl|]|].
+    { apply (NB_into_nth_session (env_set sc) (envok_set sc)); intros; nb. }
+    intros [body m]. nb.
+Qed.
+
+Theorem run_below debug sc ops : forall x,
+  below x -> (forall o id, In o ops -> In id (op_ids o) -> (id < next_id (xcb x))%N) ->
+  below (run_final debug sc ops x) /\ (next_id (xcb x) <= next_id (xcb (run_final debug sc ops x)))%N.
+Proof.
+  induction ops as [|o t IH]; intros x Hx Hids; cbn [run_final]; [split; [exact Hx | lia]|].
+  destruct (step_below debug sc o x Hx) as [Hb Hle].
+  { intros id Hid. apply (Hids o id); [left; reflexivity | exact Hid]. }
+  destruct (IH (snd (step debug sc o x)) Hb) as [Hb' Hle'].
+  { intros o' id Ho' Hid. specialize (Hids o' id (or_intror Ho') Hid). lia. }
+  split; [exact Hb' | lia].
+Qed.
+
+(* from the interpreter's initial state: every state reached by operations whose
+   handed-in identities are below 100000 (the initial counter) satisfies [below] *)
+Corollary run_below_init debug sc ops c0 c1 c2 c3 :
+  (forall o id, In o ops -> In id (op_ids o) -> (id < 100000)%N) ->
+  below (run_final debug sc ops (init_world c0 c1 c2 c3)).
+Proof. intros H. apply run_below; [apply init_below | exact H]. Qed.
+
+(* ---- H3. Clone at the interpreter: independence in every reachable state ---- *)
+Lemma run_clone_disjoint_m sc r r' x :
+  below x -> WFx x -> cap (get_m r x) = cap (get_m r' x) -> ~ same_m r' r ->
+  let x1 := snd (run_m r' (replace_with (env_map sc) (clone_from_src (env_map sc) (get_m r x)) []) x) in
+  get_m r x1 = get_m r x /\
+  (get_m r' x1 = get_m r' x \/
+   forall id, In id (mids (get_m r' x1)) -> ~ In id (mids (get_m r x1))).
+Proof.
+  intros Hx Hwf Hc Hn x1.
+  assert (Hr : get_m r x1 = get_m r x) by (apply (proj1 (run_m_other r' _ x r)); exact Hn).
+  split; [exact Hr|]. rewrite Hr. unfold x1, run_m.
+  set (w0 := {| cb := xcb x; log := []; self := get_m r' x |}).
+  pose proof (op_clone_acct (env_map sc) (get_m r x) [] w0 (WFx_get_m r x Hwf) (WFx_get_m r' x Hwf) Hc) as H.
+  cbv zeta in H. unfold wp in H.
+  assert (Hfresh : forall w : world key vobj cstate,
+            Permutation (owned (env_map sc) (self w))
+              (flat_map (ids_pair (env_map sc)) (clone_made (env_map sc) (get_m r x) (len (get_m r x)) 0 (cb w0))) ->
+            forall id, In id (mids (self w)) -> ~ In id (mids (get_m r x))).
+  { intros w HP id Hid Hsrc. rewrite <- (owned_mids sc) in Hid.
+    pose proof (clone_made_map_ge sc _ _ _ _ _ (Permutation_in id HP Hid)) as Hge. cbn [cb w0] in Hge.
+    specialize (Hx id (incl_get_m r x id Hsrc)). lia. }
+  destruct (replace_with _ _ _ w0) as [body w|w|]; cbn [finish snd]; [| |destruct H].
+  - right. rewrite cf_get_m_put_same. destruct H as (_ & _ & _ & _ & _ & _ & HP & _). apply Hfresh. exact HP.
+  - rewrite cf_get_m_put_same. destruct H as [[Hs _]|(_ & _ & _ & _ & HP & _)].
+    + left. exact Hs.
+    + right. apply Hfresh. exact HP.
+Qed.
+
+Lemma run_clone_disjoint_s sc r r' x :
+  below x -> WFx x -> cap (get_s r x) = cap (get_s r' x) -> ~ same_s r' r ->
+  let x1 := snd (run_s r' (replace_with (env_set sc) (clone_from_src (env_set sc) (get_s r x)) []) x) in
+  get_s r x1 = get_s r x /\
+  (get_s r' x1 = get_s r' x \/
+   forall id, In id (sids (get_s r' x1)) -> ~ In id (sids (get_s r x1))).
+Proof.
+  intros Hx Hwf Hc Hn x1.
+  assert (Hr : get_s r x1 = get_s r x) by (apply (proj1 (run_s_other r' _ x r)); exact Hn).
+  split; [exact Hr|]. rewrite Hr. unfold x1, run_s.
+  set (w0 := {| cb := xcb x; log := []; self := get_s r' x |}).
+  pose proof (op_clone_acct (env_set sc) (get_s r x) [] w0 (WFx_get_s r x Hwf) (WFx_get_s r' x Hwf) Hc) as H.
+  cbv zeta in H. unfold wp in H.
+  assert (Hfresh : forall w : world key unit cstate,
+            Permutation (owned (env_set sc) (self w))
+              (flat_map (ids_pair (env_set sc)) (clone_made (env_set sc) (get_s r x) (len (get_s r x)) 0 (cb w0))) ->
+            forall id, In id (sids (self w)) -> ~ In id (sids (get_s r x))).
+  { intros w HP id Hid Hsrc. rewrite <- (owned_sids sc) in Hid.
+    pose proof (clone_made_set_ge sc _ _ _ _ _ (Permutation_in id HP Hid)) as Hge. cbn [cb w0] in Hge.
+    specialize (Hx id (incl_get_s r x id Hsrc)). lia. }
+  destruct (replace_with _ _ _ w0) as [body w|w|]; cbn [finish snd]; [| |destruct H].
+  - right. rewrite cf_get_s_put_same. destruct H as (_ & _ & _ & _ & _ & _ & HP & _). apply Hfresh. exact HP.
+  - rewrite cf_get_s_put_same. destruct H as [[Hs _]|(_ & _ & _ & _ & HP & _)].
+    + left. exact Hs.
+    + right. apply Hfresh. exact HP.
+Qed.
+
+(* In EVERY state satisfying [below] (hence every state reachable from init_world by
+   operations handing in identities below 100000), for EVERY script: after
+   `OClone r r'` into a different register the original is literally what it was,
+   and the destination either is literally what it was (capacities differ: the
+   harness does not issue the call; or a Clone panicked: the partial clone was
+   destroyed, the destination untouched) or shares NO identity with the original. *)
+Theorem step_OClone_disjoint debug sc r r' x :
+  below x -> WFx x -> ~ same_m r' r ->
+  let x1 := snd (step debug sc (OClone r r') x) in
+  get_m r x1 = get_m r x /\
+  (get_m r' x1 = get_m r' x \/ forall id, In id (mids (get_m r' x1)) -> ~ In id (mids (get_m r x1))).
+Proof.
+  intros Hx Hwf Hn. unfold step. assert (Hd : xdead x = false) by apply Hwf. rewrite Hd.
+  destruct (Nat.eqb_spec (cap (get_m r x)) (cap (get_m r' x))) as [Hc|Hc]; [|cbn [snd]; auto].
+  apply run_clone_disjoint_m; assumption.
+Qed.
+Theorem step_OCloneFrom_disjoint debug sc r r' x :
+  below x -> WFx x -> ~ same_m r' r ->
+  let x1 := snd (step debug sc (OCloneFrom r r') x) in
+  get_m r x1 = get_m r x /\
+  (get_m r' x1 = get_m r' x \/ forall id, In id (mids (get_m r' x1)) -> ~ In id (mids (get_m r x1))).
+Proof.
+  intros Hx Hwf Hn. unfold step. assert (Hd : xdead x = false) by apply Hwf. rewrite Hd.
+  destruct (Nat.eqb_spec (cap (get_m r x)) (cap (get_m r' x))) as [Hc|Hc]; [|cbn [snd]; auto].
+  apply run_clone_disjoint_m; assumption.
+Qed.
+Theorem step_SClone_disjoint debug sc r r' x :
+  below x -> WFx x -> ~ same_s r' r ->
+  let x1 := snd (step debug sc (SClone r r') x) in
+  get_s r x1 = get_s r x /\
+  (get_s r' x1 = get_s r' x \/ forall id, In id (sids (get_s r' x1)) -> ~ In id (sids (get_s r x1))).
+Proof.
+  intros Hx Hwf Hn. unfold step. assert (Hd : xdead x = false) by apply Hwf. rewrite Hd.
+  destruct (Nat.eqb_spec (cap (get_s r x)) (cap (get_s r' x))) as [Hc|Hc]; [|cbn [snd]; auto].
+  apply run_clone_disjoint_s; assumption.
+Qed.
+Theorem step_SCloneFrom_disjoint debug sc r r' x :
+  below x -> WFx x -> ~ same_s r' r ->
+  let x1 := snd (step debug sc (SCloneFrom r r') x) in
+  get_s r x1 = get_s r x /\
+  (get_s r' x1 = get_s r' x \/ forall id, In id (sids (get_s r' x1)) -> ~ In id (sids (get_s r x1))).
+Proof.
+  intros Hx Hwf Hn. unfold step. assert (Hd : xdead x = false) by apply Hwf. rewrite Hd.
+  destruct (Nat.eqb_spec (cap (get_s r x)) (cap (get_s r' x))) as [Hc|Hc]; [|cbn [snd]; auto].
+  apply run_clone_disjoint_s; assumption.
+Qed.
+
+(* when the call RETURNED (observation starts with 1) the destination is the
+   complete clone: no identity in common with the original *)
+Theorem step_OClone_returned_disjoint debug sc r r' x t :
+  below x -> WFx x -> ~ same_m r' r ->
+  fst (step debug sc (OClone r r') x) = 1%N :: t ->
+  let x1 := snd (step debug sc (OClone r r') x) in
+  forall id, In id (mids (get_m r' x1)) -> ~ In id (mids (get_m r x1)).
+Proof.
+  intros Hx Hwf Hn. unfold step. assert (Hd : xdead x = false) by apply Hwf. rewrite Hd.
+  destruct (Nat.eqb_spec (cap (get_m r x)) (cap (get_m r' x))) as [Hc|Hc]; [|cbn [fst]; discriminate].
+  intros Hobs. cbv zeta.
+  rewrite (proj1 (run_m_other r' _ x r) Hn). unfold run_m in *.
+  set (w0 := {| cb := xcb x; log := []; self := get_m r' x |}) in *.
+  pose proof (op_clone_acct (env_map sc) (get_m r x) [] w0 (WFx_get_m r x Hwf) (WFx_get_m r' x Hwf) Hc) as H.
+  cbv zeta in H. unfold wp in H.
+  destruct (replace_with _ _ _ w0) as [body w|w|]; cbn [finish fst snd] in *; [|discriminate Hobs|destruct H].
+  rewrite cf_get_m_put_same. destruct H as (_ & _ & _ & _ & _ & _ & HP & _).
+  intros id Hid Hsrc. rewrite <- (owned_mids sc) in Hid.
+  pose proof (clone_made_map_ge sc _ _ _ _ _ (Permutation_in id HP Hid)) as Hge. cbn [cb w0] in Hge.
+  specialize (Hx id (incl_get_m r x id Hsrc)). lia.
+Qed.
+
+(* the headline: in EVERY state the interpreter reaches from its initial state by
+   any history (any script) of operations that hand in identities below the
+   initial counter 100000, cloning one register into the other yields a copy that
+   shares no identity with the original (or leaves the destination untouched) *)
+Theorem reachable_OClone_disjoint debug sc ops c0 c1 c2 c3 r r' :
+  Forall safe_op ops ->
+  (forall o id, In o ops -> In id (op_ids o) -> (id < 100000)%N) ->
+  ~ same_m r' r ->
+  let x := run_final debug sc ops (init_world c0 c1 c2 c3) in
+  let x1 := snd (step debug sc (OClone r r') x) in
+  get_m r x1 = get_m r x /\
+  (get_m r' x1 = get_m r' x \/ forall id, In id (mids (get_m r' x1)) -> ~ In id (mids (get_m r x1))).
+Proof.
+  intros Hs Hids Hn x. apply step_OClone_disjoint; [|apply run_final_WFx_safe; [apply init_WFx | exact Hs] | exact Hn].
+  apply run_below_init. exact Hids.
+Qed.
+
+Theorem reachable_SClone_disjoint debug sc ops c0 c1 c2 c3 r r' :
+  Forall safe_op ops ->
+  (forall o id, In o ops -> In id (op_ids o) -> (id < 100000)%N) ->
+  ~ same_s r' r ->
+  let x := run_final debug sc ops (init_world c0 c1 c2 c3) in
+  let x1 := snd (step debug sc (SClone r r') x) in
+  get_s r x1 = get_s r x /\
+  (get_s r' x1 = get_s r' x \/ forall id, In id (sids (get_s r' x1)) -> ~ In id (sids (get_s r x1))).
+Proof.
+  intros Hs Hids Hn x. apply step_SClone_disjoint; [|apply run_final_WFx_safe; [apply init_WFx | exact Hs] | exact Hn].
+  apply run_below_init. exact Hids.
+Qed.
